@@ -9,8 +9,12 @@ import (
 	"context"
 	"errors"
 	"fmt"
+	"io"
+	"log/slog"
 	"os"
 	"path/filepath"
+	"regexp"
+	"sort"
 	"strings"
 	"testing"
 	"time"
@@ -19,6 +23,7 @@ import (
 	"github.com/bufbuild/buf/private/buf/bufworkspace"
 	"github.com/bufbuild/buf/private/bufpkg/bufanalysis"
 	"github.com/bufbuild/buf/private/bufpkg/bufcheck"
+	"github.com/bufbuild/buf/private/bufpkg/bufconfig"
 	"github.com/bufbuild/buf/private/bufpkg/bufimage"
 	"github.com/bufbuild/buf/private/bufpkg/bufmodule"
 	"github.com/bufbuild/buf/private/bufpkg/bufplugin"
@@ -193,4 +198,1640 @@ func verifReplayInCurrentFile(t *testing.T) {
 			fmt.Printf("VERIF-REPLAY FAILING-INPUT previous {a.proto: enum p.E{E_UNSPECIFIED=0;E_ONE=1}}, current {b.proto: enum p.E{E_UNSPECIFIED=0}} built with --exclude-source-info, PACKAGE rules: the ENUM_VALUE_NO_DELETE annotation names file %q; enum E now lives in \"b.proto\"\n", path)
 		}
 	}
+}
+
+// =====================================================================================================
+// Catalogue replay for every other obligation of C03 ("no documented breaking change goes unreported")
+// and C04 ("compatible changes are never reported and breaking categories are ordered").
+//
+// The oracle below is written from the property texts and the rule documentation (rule IDs, Purpose
+// strings and category membership per buf.yaml version in bufcheckserver.go / bufcheckserverbuild, the
+// documented compatibility groups of the FIELD_WIRE_* rules), never from the handler code:
+//   - every catalogue entry is a (previous, current) pair of in-memory workspaces plus the annotations
+//     that MUST be reported (rule ID, file, line of the edited element in the current source, words the
+//     message has to contain) whenever the rule is active; for the rules an entry "is about" the
+//     reported set must be exactly the expected set (so "must stay silent" is expressed by listing the
+//     rule without an expectation);
+//   - every pair is run with the single-rule configuration and with the four categories (buf.yaml v1 and
+//     v2, v1beta1 as well when the budget allows); an annotation of a rule that is not documented to be in
+//     the selected category is a failure, and so is a category run that is clean while a laxer one is not
+//     (FILE => PACKAGE => WIRE_JSON => WIRE);
+//   - the C04 entries (identical, re-commented/reformatted, additive-only) must be clean everywhere.
+
+type vrAnn struct {
+	rule, file string
+	line, col  int
+	msg        string
+}
+
+func (a vrAnn) String() string {
+	f := a.file
+	if f == "" {
+		f = "<no file>"
+	}
+	return fmt.Sprintf("%s %s:%d:%d %q", a.rule, f, a.line, a.col, a.msg)
+}
+
+// vrExp is one annotation that must be reported.
+type vrExp struct {
+	rule  string
+	file  string   // "" = the annotation carries no file (the file is gone in the current version)
+	mark  string   // marker comment in the current source of file giving the line; "" = no line (whole file)
+	names []string // substrings the message must contain (it has to name the edited element)
+}
+
+type vrEntry struct {
+	name      string
+	note      string   // optional: how the sources were generated
+	rules     []string // rule IDs this entry is about: reported set must be exactly exp for these
+	prev, cur map[string]string
+	exp       []vrExp
+	clean     bool // C04: nothing may be reported in any category
+}
+
+func vrE(rule, file, mark string, names ...string) vrExp {
+	return vrExp{rule: rule, file: file, mark: mark, names: names}
+}
+
+// ---------------------------------------------------------------------------------------------------
+// documented rule -> categories table (bufcheckserver.go). Letters: F=FILE P=PACKAGE J=WIRE_JSON W=WIRE.
+
+var vrRuleCatsV2 = map[string]string{
+	"ENUM_NO_DELETE": "F", "EXTENSION_NO_DELETE": "F", "FILE_NO_DELETE": "F", "MESSAGE_NO_DELETE": "F", "SERVICE_NO_DELETE": "F",
+	"ENUM_SAME_TYPE": "FP", "ENUM_VALUE_NO_DELETE": "FP", "EXTENSION_MESSAGE_NO_DELETE": "FP", "FIELD_NO_DELETE": "FP",
+	"FIELD_SAME_CARDINALITY": "FP", "FIELD_SAME_CPP_STRING_TYPE": "FP", "FIELD_SAME_JAVA_UTF8_VALIDATION": "FP",
+	"FIELD_SAME_JSTYPE": "FP", "FIELD_SAME_TYPE": "FP", "FIELD_SAME_UTF8_VALIDATION": "FP",
+	"FILE_SAME_CC_ENABLE_ARENAS": "FP", "FILE_SAME_CC_GENERIC_SERVICES": "FP", "FILE_SAME_CSHARP_NAMESPACE": "FP",
+	"FILE_SAME_GO_PACKAGE": "FP", "FILE_SAME_JAVA_GENERIC_SERVICES": "FP", "FILE_SAME_JAVA_MULTIPLE_FILES": "FP",
+	"FILE_SAME_JAVA_OUTER_CLASSNAME": "FP", "FILE_SAME_JAVA_PACKAGE": "FP", "FILE_SAME_OBJC_CLASS_PREFIX": "FP",
+	"FILE_SAME_OPTIMIZE_FOR": "FP", "FILE_SAME_PHP_CLASS_PREFIX": "FP", "FILE_SAME_PHP_METADATA_NAMESPACE": "FP",
+	"FILE_SAME_PHP_NAMESPACE": "FP", "FILE_SAME_PY_GENERIC_SERVICES": "FP", "FILE_SAME_RUBY_PACKAGE": "FP",
+	"FILE_SAME_SWIFT_PREFIX": "FP", "FILE_SAME_SYNTAX": "FP",
+	"MESSAGE_NO_REMOVE_STANDARD_DESCRIPTOR_ACCESSOR": "FP", "ONEOF_NO_DELETE": "FP", "RPC_NO_DELETE": "FP",
+	"ENUM_SAME_JSON_FORMAT": "FPJ", "ENUM_VALUE_SAME_NAME": "FPJ", "FIELD_SAME_JSON_NAME": "FPJ", "FIELD_SAME_NAME": "FPJ",
+	"MESSAGE_SAME_JSON_FORMAT": "FPJ",
+	"FIELD_SAME_DEFAULT":       "FPJW", "FIELD_SAME_ONEOF": "FPJW", "FILE_SAME_PACKAGE": "FPJW", "MESSAGE_SAME_REQUIRED_FIELDS": "FPJW",
+	"RESERVED_ENUM_NO_DELETE": "FPJW", "RESERVED_MESSAGE_NO_DELETE": "FPJW", "RPC_SAME_CLIENT_STREAMING": "FPJW",
+	"RPC_SAME_IDEMPOTENCY_LEVEL": "FPJW", "RPC_SAME_REQUEST_TYPE": "FPJW", "RPC_SAME_RESPONSE_TYPE": "FPJW",
+	"RPC_SAME_SERVER_STREAMING": "FPJW",
+	"PACKAGE_ENUM_NO_DELETE":    "P", "PACKAGE_EXTENSION_NO_DELETE": "P", "PACKAGE_MESSAGE_NO_DELETE": "P", "PACKAGE_NO_DELETE": "P",
+	"PACKAGE_SERVICE_NO_DELETE":                 "P",
+	"ENUM_VALUE_NO_DELETE_UNLESS_NAME_RESERVED": "J", "FIELD_NO_DELETE_UNLESS_NAME_RESERVED": "J",
+	"FIELD_WIRE_JSON_COMPATIBLE_CARDINALITY": "J", "FIELD_WIRE_JSON_COMPATIBLE_TYPE": "J",
+	"ENUM_VALUE_NO_DELETE_UNLESS_NUMBER_RESERVED": "JW", "FIELD_NO_DELETE_UNLESS_NUMBER_RESERVED": "JW",
+	"FIELD_WIRE_COMPATIBLE_CARDINALITY": "W", "FIELD_WIRE_COMPATIBLE_TYPE": "W",
+}
+
+// vrCats returns the documented categories of rule in the given buf.yaml version ("" = rule does not exist there).
+func vrCats(version, rule string) string {
+	cats := vrRuleCatsV2[rule]
+	if version == "v2" {
+		return cats
+	}
+	switch rule {
+	case "EXTENSION_NO_DELETE", "PACKAGE_EXTENSION_NO_DELETE", "FIELD_SAME_DEFAULT":
+		return "" // v2 only
+	}
+	if version == "v1beta1" {
+		switch rule {
+		case "FIELD_SAME_CARDINALITY", "FIELD_SAME_TYPE":
+			return "FPJW"
+		case "FILE_SAME_PACKAGE":
+			return "F"
+		case "FIELD_WIRE_COMPATIBLE_TYPE", "FIELD_WIRE_JSON_COMPATIBLE_TYPE":
+			return ""
+		}
+	}
+	return cats
+}
+
+var vrCategories = []struct{ name, letter string }{{"FILE", "F"}, {"PACKAGE", "P"}, {"WIRE_JSON", "J"}, {"WIRE", "W"}}
+
+func vrAllRules() []string {
+	var rules []string
+	for r := range vrRuleCatsV2 {
+		rules = append(rules, r)
+	}
+	sort.Strings(rules)
+	return rules
+}
+
+// ---------------------------------------------------------------------------------------------------
+// running buf breaking on in-memory workspaces
+
+type vrEnv struct {
+	ctx     context.Context
+	logger  *slog.Logger
+	client  bufcheck.Client
+	images  map[string]bufimage.Image
+	configs map[string]bufconfig.BreakingConfig
+	calls   int
+}
+
+func vrNewEnv(ctx context.Context) (*vrEnv, error) {
+	logger := slog.New(slog.NewTextHandler(io.Discard, nil))
+	client, err := bufcheck.NewClient(logger, bufcheck.NewLocalRunnerProvider(wasm.UnimplementedRuntime, bufplugin.NopPluginKeyProvider, bufplugin.NopPluginDataProvider))
+	if err != nil {
+		return nil, err
+	}
+	return &vrEnv{ctx: ctx, logger: logger, client: client, images: map[string]bufimage.Image{}, configs: map[string]bufconfig.BreakingConfig{}}, nil
+}
+
+func (e *vrEnv) workspace(files map[string]string) (bufworkspace.Workspace, error) {
+	bucket := storagemem.NewReadWriteBucket()
+	for path, data := range files {
+		if err := storage.PutPath(e.ctx, bucket, path, []byte(data)); err != nil {
+			return nil, err
+		}
+	}
+	targeting, err := buftarget.NewBucketTargeting(e.ctx, e.logger, bucket, ".", nil, nil, buftarget.TerminateAtControllingWorkspace)
+	if err != nil {
+		return nil, err
+	}
+	return bufworkspace.NewWorkspaceProvider(e.logger, bufmodule.NopGraphProvider, bufmodule.NopModuleDataProvider, bufmodule.NopCommitProvider, bufplugin.NopPluginKeyProvider).GetWorkspaceForBucket(e.ctx, bucket, targeting)
+}
+
+func vrSortedPaths(files map[string]string) []string {
+	paths := make([]string, 0, len(files))
+	for p := range files {
+		paths = append(paths, p)
+	}
+	sort.Strings(paths)
+	return paths
+}
+
+// image builds (and caches per file map) the image of the .proto files, source info kept.
+func (e *vrEnv) image(files map[string]string) (bufimage.Image, error) {
+	var key strings.Builder
+	for _, p := range vrSortedPaths(files) {
+		key.WriteString(p + "\x00" + files[p] + "\x01")
+	}
+	if img, ok := e.images[key.String()]; ok {
+		return img, nil
+	}
+	all := map[string]string{"buf.yaml": "version: v1\n"}
+	for p, d := range files {
+		all[p] = d
+	}
+	ws, err := e.workspace(all)
+	if err != nil {
+		return nil, err
+	}
+	img, err := bufimage.BuildImage(e.ctx, e.logger, bufmodule.ModuleSetToModuleReadBucketWithOnlyProtoFiles(ws))
+	if err != nil {
+		return nil, err
+	}
+	e.images[key.String()] = img
+	return img, nil
+}
+
+// config reads (and caches) the breaking configuration a workspace with this buf.yaml gets.
+func (e *vrEnv) config(bufYAML string) (bufconfig.BreakingConfig, error) {
+	if c, ok := e.configs[bufYAML]; ok {
+		return c, nil
+	}
+	ws, err := e.workspace(map[string]string{"buf.yaml": bufYAML, "cfg.proto": "syntax = \"proto3\";\npackage cfg;\n"})
+	if err != nil {
+		return nil, err
+	}
+	opaqueID, err := testGetRootOpaqueID(ws, ".")
+	if err != nil {
+		return nil, err
+	}
+	c := ws.GetBreakingConfigForOpaqueID(opaqueID)
+	if c == nil {
+		return nil, fmt.Errorf("no breaking config for %q", bufYAML)
+	}
+	e.configs[bufYAML] = c
+	return c, nil
+}
+
+func vrBufYAML(version, use string) string {
+	return "version: " + version + "\nbreaking:\n  use:\n    - " + use + "\n"
+}
+
+// runBreaking = `buf breaking <cur> --against <prev>` with the given buf.yaml in the current workspace.
+func (e *vrEnv) runBreaking(prev, cur map[string]string, bufYAML string) ([]vrAnn, error) {
+	previousImage, err := e.image(prev)
+	if err != nil {
+		return nil, fmt.Errorf("catalogue: build previous: %w", err)
+	}
+	image, err := e.image(cur)
+	if err != nil {
+		return nil, fmt.Errorf("catalogue: build current: %w", err)
+	}
+	config, err := e.config(bufYAML)
+	if err != nil {
+		return nil, fmt.Errorf("catalogue: config: %w", err)
+	}
+	e.calls++
+	err = e.client.Breaking(e.ctx, config, image, previousImage, bufcheck.BreakingWithExcludeImports())
+	if err == nil {
+		return nil, nil
+	}
+	var set bufanalysis.FileAnnotationSet
+	if !errors.As(err, &set) {
+		return nil, fmt.Errorf("buf breaking failed: %w", err)
+	}
+	var anns []vrAnn
+	defer func() {
+		if os.Getenv("VERIF_REPLAY_DEBUG") != "" {
+			fmt.Printf("VERIF-REPLAY debug {%s}: %v\n", strings.Join(strings.Fields(bufYAML), " "), anns)
+		}
+	}()
+	for _, a := range set.FileAnnotations() {
+		ann := vrAnn{rule: a.Type(), line: a.StartLine(), col: a.StartColumn(), msg: a.Message()}
+		if a.FileInfo() != nil {
+			ann.file = a.FileInfo().Path()
+		}
+		anns = append(anns, ann)
+	}
+	return anns, nil
+}
+
+// ---------------------------------------------------------------------------------------------------
+// checking one run against an entry
+
+var vrMarkerRE = regexp.MustCompile(`/\*[a-z0-9_]+\*/`)
+
+func vrCompact(src string) string {
+	s := strings.Join(strings.Fields(vrMarkerRE.ReplaceAllString(src, "")), " ")
+	if len(s) > 600 {
+		s = s[:600] + " ...(truncated)"
+	}
+	return s
+}
+
+// vrDescribe prints the sources on one line; when the violation names files only those are printed in full.
+func vrDescribe(files map[string]string, other map[string]string, violation string) string {
+	named := map[string]bool{}
+	for _, m := range []map[string]string{files, other} {
+		for p := range m {
+			if strings.Contains(violation, p+":") || strings.Contains(violation, "at "+p) {
+				named[p] = true
+			}
+		}
+	}
+	var parts []string
+	omitted := 0
+	for _, p := range vrSortedPaths(files) {
+		if len(named) > 0 && !named[p] {
+			omitted++
+			continue
+		}
+		parts = append(parts, p+": "+vrCompact(files[p]))
+	}
+	if omitted > 0 {
+		parts = append(parts, fmt.Sprintf("(+%d files not involved)", omitted))
+	}
+	return "{" + strings.Join(parts, " | ") + "}"
+}
+
+// vrMarkLine returns the 1-based line of the marker in src (0 if absent) and the text of that line.
+func vrMarkLine(src, mark string) (int, string) {
+	for i, l := range strings.Split(src, "\n") {
+		if strings.Contains(l, mark) {
+			return i + 1, vrCompact(l)
+		}
+	}
+	return 0, ""
+}
+
+func vrLineText(src string, line int) string {
+	lines := strings.Split(src, "\n")
+	if line >= 1 && line <= len(lines) {
+		return vrCompact(lines[line-1])
+	}
+	return ""
+}
+
+type vrResolved struct {
+	exp  vrExp
+	line int // 0 = no line
+}
+
+func (en *vrEntry) resolve(rule string) ([]vrResolved, error) {
+	var out []vrResolved
+	for _, x := range en.exp {
+		if x.rule != rule {
+			continue
+		}
+		r := vrResolved{exp: x}
+		if x.mark != "" {
+			line, _ := vrMarkLine(en.cur[x.file], x.mark)
+			if line == 0 {
+				return nil, fmt.Errorf("catalogue: entry %q: marker %q not in current %q", en.name, x.mark, x.file)
+			}
+			r.line = line
+		}
+		out = append(out, r)
+	}
+	return out, nil
+}
+
+func (r vrResolved) String() string {
+	f := r.exp.file
+	if f == "" {
+		f = "<no file>"
+	}
+	pos := f
+	if r.line > 0 {
+		pos = fmt.Sprintf("%s:%d", f, r.line)
+	}
+	return fmt.Sprintf("%s at %s naming %q", r.exp.rule, pos, r.exp.names)
+}
+
+func (r vrResolved) positionMatches(a vrAnn) bool {
+	if a.rule != r.exp.rule || a.file != r.exp.file {
+		return false
+	}
+	if r.line == 0 {
+		return a.line <= 1 // no location: nothing or the top of the file
+	}
+	return a.line == r.line
+}
+
+func (r vrResolved) matches(a vrAnn) bool {
+	if !r.positionMatches(a) {
+		return false
+	}
+	for _, n := range r.exp.names {
+		if !strings.Contains(a.msg, n) {
+			return false
+		}
+	}
+	return true
+}
+
+// matchRule compares the annotations of one rule with the expectations of the entry: "" if equal.
+func (en *vrEntry) matchRule(rule string, anns []vrAnn) (string, error) {
+	want, err := en.resolve(rule)
+	if err != nil {
+		return "", err
+	}
+	var got []vrAnn
+	for _, a := range anns {
+		if a.rule == rule {
+			got = append(got, a)
+		}
+	}
+	var problems []string
+	for _, w := range want {
+		found := false
+		for _, a := range got {
+			if w.matches(a) {
+				found = true
+				break
+			}
+		}
+		if !found {
+			p := "missing " + w.String()
+			if w.line > 0 {
+				p += fmt.Sprintf(" (current line %q)", vrLineText(en.cur[w.exp.file], w.line))
+			}
+			problems = append(problems, p)
+		}
+	}
+	for _, a := range got {
+		ok := false
+		for _, w := range want {
+			if w.positionMatches(a) {
+				ok = true
+				break
+			}
+		}
+		if !ok {
+			p := "unexpected " + a.String()
+			if a.line > 0 && a.file != "" {
+				p += fmt.Sprintf(" (current line %q)", vrLineText(en.cur[a.file], a.line))
+			}
+			problems = append(problems, p)
+		}
+	}
+	if len(problems) == 0 {
+		return "", nil
+	}
+	if len(problems) > 4 {
+		problems = append(problems[:4], fmt.Sprintf("... and %d more", len(problems)-4))
+	}
+	var gotS []string
+	for i, a := range got {
+		if i == 6 {
+			gotS = append(gotS, "...")
+			break
+		}
+		gotS = append(gotS, a.String())
+	}
+	return fmt.Sprintf("rule %s: %s; expected %d annotation(s), observed %d %v", rule, strings.Join(problems, "; "), len(want), len(got), gotS), nil
+}
+
+func vrContains(list []string, s string) bool {
+	for _, x := range list {
+		if x == s {
+			return true
+		}
+	}
+	return false
+}
+
+// checkEntry runs all configurations for one entry; returns the first violation ("" if none) with its config.
+func (e *vrEnv) checkEntry(en *vrEntry, versions []string, singleOnly map[string]bool) (config, violation string, err error) {
+	garbled := func(anns []vrAnn) string {
+		for _, a := range anns {
+			if strings.Contains(a.msg, "%!") {
+				return "annotation with garbled message: " + a.String()
+			}
+		}
+		return ""
+	}
+	// (a) single-rule configurations
+	for _, rule := range en.rules {
+		if singleOnly != nil && !singleOnly[rule] {
+			continue
+		}
+		for _, version := range []string{"v2", "v1"} {
+			if vrCats(version, rule) == "" {
+				continue
+			}
+			yaml := vrBufYAML(version, rule)
+			anns, err := e.runBreaking(en.prev, en.cur, yaml)
+			if err != nil {
+				if strings.HasPrefix(err.Error(), "catalogue:") {
+					return "", "", err
+				}
+				return yaml, err.Error(), nil
+			}
+			for _, a := range anns {
+				if a.rule != rule {
+					return yaml, "annotation of a rule that is not configured: " + a.String(), nil
+				}
+			}
+			if g := garbled(anns); g != "" {
+				return yaml, g, nil
+			}
+			if en.clean && len(anns) > 0 {
+				return yaml, fmt.Sprintf("compatible change reported: %v", anns), nil
+			}
+			v, err := en.matchRule(rule, anns)
+			if err != nil {
+				return "", "", err
+			}
+			if v != "" {
+				return yaml, v, nil
+			}
+		}
+	}
+	// (b) the four categories, documented membership, exactness for the entry's rules, hierarchy
+	for _, version := range versions {
+		clean := map[string]bool{}
+		summary := map[string]string{}
+		for _, cat := range vrCategories {
+			yaml := vrBufYAML(version, cat.name)
+			anns, err := e.runBreaking(en.prev, en.cur, yaml)
+			if err != nil {
+				if strings.HasPrefix(err.Error(), "catalogue:") {
+					return "", "", err
+				}
+				return yaml, err.Error(), nil
+			}
+			clean[cat.letter] = len(anns) == 0
+			seen := map[string]bool{}
+			var ids []string
+			for _, a := range anns {
+				if !seen[a.rule] {
+					seen[a.rule] = true
+					ids = append(ids, a.rule)
+				}
+			}
+			summary[cat.name] = fmt.Sprintf("%v", ids)
+			if g := garbled(anns); g != "" {
+				return yaml, g, nil
+			}
+			if en.clean && len(anns) > 0 {
+				return yaml, fmt.Sprintf("compatible change reported: %v", anns), nil
+			}
+			for _, a := range anns {
+				if !strings.Contains(vrCats(version, a.rule), cat.letter) {
+					return yaml, fmt.Sprintf("annotation of rule %s, which is not documented in category %s of %s: %s", a.rule, cat.name, version, a.String()), nil
+				}
+			}
+			for _, rule := range en.rules {
+				if !strings.Contains(vrCats(version, rule), cat.letter) {
+					continue
+				}
+				v, err := en.matchRule(rule, anns)
+				if err != nil {
+					return "", "", err
+				}
+				if v != "" {
+					return yaml, v, nil
+				}
+			}
+		}
+		order := []struct{ strict, lax, strictName, laxName string }{{"F", "P", "FILE", "PACKAGE"}, {"P", "J", "PACKAGE", "WIRE_JSON"}, {"J", "W", "WIRE_JSON", "WIRE"}}
+		for _, o := range order {
+			if clean[o.strict] && !clean[o.lax] {
+				return "version: " + version + " breaking.use each of FILE, PACKAGE, WIRE_JSON, WIRE",
+					fmt.Sprintf("category hierarchy broken: clean under %s but not under the laxer %s (rules reported: FILE %s PACKAGE %s WIRE_JSON %s WIRE %s)",
+						o.strictName, o.laxName, summary["FILE"], summary["PACKAGE"], summary["WIRE_JSON"], summary["WIRE"]), nil
+			}
+		}
+	}
+	return "", "", nil
+}
+
+// ---------------------------------------------------------------------------------------------------
+// dispatch
+
+func vrNorm(s string) string { return strings.ToUpper(strings.ReplaceAll(s, "_", "")) }
+
+func vrRulesWithPrefix(prefixes ...string) []string {
+	var out []string
+	for _, r := range vrAllRules() {
+		for _, p := range prefixes {
+			if strings.HasPrefix(r, p) {
+				out = append(out, r)
+				break
+			}
+		}
+	}
+	return out
+}
+
+// vrHelperRules: shared helpers -> the rules that are built on them.
+var vrHelperRules = map[string][]string{
+	"isDeletedEnumValueAllowedWithRules":        {"ENUM_VALUE_NO_DELETE", "ENUM_VALUE_NO_DELETE_UNLESS_NAME_RESERVED", "ENUM_VALUE_NO_DELETE_UNLESS_NUMBER_RESERVED"},
+	"checkEnumValueNoDeleteWithRules":           {"ENUM_VALUE_NO_DELETE", "ENUM_VALUE_NO_DELETE_UNLESS_NAME_RESERVED", "ENUM_VALUE_NO_DELETE_UNLESS_NUMBER_RESERVED"},
+	"checkFieldNoDeleteWithRules":               {"FIELD_NO_DELETE", "FIELD_NO_DELETE_UNLESS_NAME_RESERVED", "FIELD_NO_DELETE_UNLESS_NUMBER_RESERVED"},
+	"isDeletedFieldAllowedWithRules":            {"FIELD_NO_DELETE", "FIELD_NO_DELETE_UNLESS_NAME_RESERVED", "FIELD_NO_DELETE_UNLESS_NUMBER_RESERVED"},
+	"NumberInReservedRanges":                    {"FIELD_NO_DELETE_UNLESS_NUMBER_RESERVED", "ENUM_VALUE_NO_DELETE_UNLESS_NUMBER_RESERVED"},
+	"NameInReservedNames":                       {"FIELD_NO_DELETE_UNLESS_NAME_RESERVED", "ENUM_VALUE_NO_DELETE_UNLESS_NAME_RESERVED"},
+	"checkTagRanges":                            {"RESERVED_ENUM_NO_DELETE", "RESERVED_MESSAGE_NO_DELETE", "EXTENSION_MESSAGE_NO_DELETE"},
+	"collapseRanges":                            {"RESERVED_ENUM_NO_DELETE", "RESERVED_MESSAGE_NO_DELETE", "EXTENSION_MESSAGE_NO_DELETE"},
+	"findMissing":                               {"RESERVED_ENUM_NO_DELETE", "RESERVED_MESSAGE_NO_DELETE", "EXTENSION_MESSAGE_NO_DELETE"},
+	"missingRangesString":                       {"RESERVED_ENUM_NO_DELETE", "RESERVED_MESSAGE_NO_DELETE", "EXTENSION_MESSAGE_NO_DELETE"},
+	"classifyElementRange":                      {"RESERVED_ENUM_NO_DELETE", "RESERVED_MESSAGE_NO_DELETE", "EXTENSION_MESSAGE_NO_DELETE"},
+	"ValueToReservedName":                       {"RESERVED_ENUM_NO_DELETE", "RESERVED_MESSAGE_NO_DELETE"},
+	"addFieldChangedType":                       {"FIELD_SAME_TYPE", "FIELD_WIRE_COMPATIBLE_TYPE", "FIELD_WIRE_JSON_COMPATIBLE_TYPE"},
+	"addEnumGroupMessageFieldChangedTypeName":   {"FIELD_SAME_TYPE", "FIELD_WIRE_COMPATIBLE_TYPE", "FIELD_WIRE_JSON_COMPATIBLE_TYPE"},
+	"checkEnumWireCompatibleForField":           {"FIELD_WIRE_COMPATIBLE_TYPE", "FIELD_WIRE_JSON_COMPATIBLE_TYPE"},
+	"getEnumByFullName":                         {"FIELD_WIRE_COMPATIBLE_TYPE", "FIELD_WIRE_JSON_COMPATIBLE_TYPE"},
+	"EnumIsSubset":                              {"FIELD_WIRE_COMPATIBLE_TYPE", "FIELD_WIRE_JSON_COMPATIBLE_TYPE"},
+	"fieldDescriptorTypePrettyString":           {"FIELD_SAME_TYPE", "FIELD_WIRE_COMPATIBLE_TYPE", "FIELD_WIRE_JSON_COMPATIBLE_TYPE"},
+	"getDescriptorAndLocationForDeletedElement": {"ENUM_NO_DELETE", "EXTENSION_NO_DELETE", "PACKAGE_ENUM_NO_DELETE", "PACKAGE_EXTENSION_NO_DELETE"},
+	"getDescriptorAndLocationForDeletedMessage": {"MESSAGE_NO_DELETE", "PACKAGE_MESSAGE_NO_DELETE"},
+	"getCardinality":                            {"FIELD_SAME_CARDINALITY", "FIELD_WIRE_COMPATIBLE_CARDINALITY", "FIELD_WIRE_JSON_COMPATIBLE_CARDINALITY"},
+	"getSortedEnumValueNames":                   {"ENUM_VALUE_SAME_NAME", "ENUM_VALUE_NO_DELETE_UNLESS_NAME_RESERVED"},
+	"fieldCppStringType":                        {"FIELD_SAME_CPP_STRING_TYPE"},
+	"fieldCppStringTypeLocation":                {"FIELD_SAME_CPP_STRING_TYPE"},
+	"fieldJavaUTF8Validation":                   {"FIELD_SAME_JAVA_UTF8_VALIDATION"},
+	"fieldJavaUTF8ValidationLocation":           {"FIELD_SAME_JAVA_UTF8_VALIDATION"},
+	"is64bitInteger":                            {"FIELD_SAME_JSTYPE"},
+	"canHaveDefault":                            {"FIELD_SAME_DEFAULT"},
+	"getDefault":                                {"FIELD_SAME_DEFAULT"},
+	"defaultsEqual":                             {"FIELD_SAME_DEFAULT"},
+	"findFeatureField":                          {"ENUM_SAME_JSON_FORMAT", "MESSAGE_SAME_JSON_FORMAT", "FIELD_SAME_UTF8_VALIDATION", "FIELD_SAME_JAVA_UTF8_VALIDATION"},
+	"NumberToNameToEnumValue":                   {"ENUM_VALUE_NO_DELETE", "ENUM_VALUE_NO_DELETE_UNLESS_NAME_RESERVED", "ENUM_VALUE_NO_DELETE_UNLESS_NUMBER_RESERVED", "ENUM_VALUE_SAME_NAME"},
+	"NewBreakingEnumValuePairRuleHandler":       {"ENUM_VALUE_SAME_NAME"},
+	"NewBreakingMethodPairRuleHandler":          {"RPC_SAME_CLIENT_STREAMING", "RPC_SAME_IDEMPOTENCY_LEVEL", "RPC_SAME_REQUEST_TYPE", "RPC_SAME_RESPONSE_TYPE", "RPC_SAME_SERVER_STREAMING"},
+	"NewBreakingServicePairRuleHandler":         {"RPC_NO_DELETE", "RPC_SAME_CLIENT_STREAMING", "RPC_SAME_IDEMPOTENCY_LEVEL", "RPC_SAME_REQUEST_TYPE", "RPC_SAME_RESPONSE_TYPE", "RPC_SAME_SERVER_STREAMING"},
+	"NameToMethod":                              {"RPC_NO_DELETE", "RPC_SAME_CLIENT_STREAMING", "RPC_SAME_IDEMPOTENCY_LEVEL", "RPC_SAME_REQUEST_TYPE", "RPC_SAME_RESPONSE_TYPE", "RPC_SAME_SERVER_STREAMING"},
+	"NameToMessageOneof":                        {"ONEOF_NO_DELETE"},
+}
+
+// vrRulesForFunc maps VERIF_REPLAY_FUNC to the rules to replay; nil = whole catalogue.
+func vrRulesForFunc(fn string) []string {
+	if i := strings.LastIndex(fn, "."); i >= 0 {
+		fn = fn[i+1:]
+	}
+	if fn == "checkFileSameValue" {
+		return vrRulesWithPrefix("FILE_SAME_")
+	}
+	if rules, ok := vrHelperRules[fn]; ok {
+		return rules
+	}
+	for _, prefix := range []string{"handleBreaking", "HandleBreaking"} {
+		if strings.HasPrefix(fn, prefix) {
+			want := vrNorm(strings.TrimPrefix(fn, prefix))
+			for _, r := range vrAllRules() {
+				if vrNorm(r) == want {
+					return []string{r}
+				}
+			}
+		}
+	}
+	return nil
+}
+
+func verifReplayCatalogue(fn, obligation string) {
+	start := time.Now()
+	ctx, cancel := context.WithTimeout(context.Background(), 50*time.Second)
+	defer cancel()
+	env, err := vrNewEnv(ctx)
+	if err != nil {
+		fmt.Printf("VERIF-REPLAY cannot create the check client: %v\n", err)
+		return
+	}
+	catalogue := vrCatalogue()
+	rules := vrRulesForFunc(fn)
+	var selected []*vrEntry
+	for i := range catalogue {
+		en := &catalogue[i]
+		if en.clean || rules == nil {
+			selected = append(selected, en)
+			continue
+		}
+		for _, r := range rules {
+			if vrContains(en.rules, r) {
+				selected = append(selected, en)
+				break
+			}
+		}
+	}
+	targeted := 0
+	for _, en := range selected {
+		if !en.clean {
+			targeted++
+		}
+	}
+	if rules != nil && targeted == 0 {
+		fmt.Printf("VERIF-REPLAY no harness for %q\n", fn)
+		return
+	}
+	if rules == nil {
+		fmt.Printf("VERIF-REPLAY %q (%s) is not tied to particular rules: replaying the whole catalogue (%d pairs)\n", fn, obligation, len(selected))
+	} else {
+		fmt.Printf("VERIF-REPLAY %q (%s) -> rules %v: replaying %d pairs\n", fn, obligation, rules, len(selected))
+	}
+	// entries that are specifically about the blamed rules first, the always-on C04 entries afterwards
+	sort.SliceStable(selected, func(i, j int) bool { return !selected[i].clean && selected[j].clean })
+	var singleOnly map[string]bool
+	if rules != nil {
+		singleOnly = map[string]bool{}
+		for _, r := range rules {
+			singleOnly[r] = true
+		}
+	}
+	checked, failing, printed := 0, 0, 0
+	for _, en := range selected {
+		if time.Since(start) > 42*time.Second {
+			fmt.Printf("VERIF-REPLAY time budget used up after %d of %d pairs\n", checked, len(selected))
+			break
+		}
+		versions := []string{"v1", "v2"}
+		if en.clean || time.Since(start) < 15*time.Second {
+			versions = []string{"v1", "v2", "v1beta1"}
+		}
+		config, violation, err := env.checkEntry(en, versions, singleOnly)
+		checked++
+		if err != nil {
+			fmt.Printf("VERIF-REPLAY catalogue problem in pair %q: %v\n", en.name, err)
+			continue
+		}
+		if violation == "" {
+			continue
+		}
+		failing++
+		if printed < 5 {
+			printed++
+			note := ""
+			if en.note != "" {
+				note = " (" + en.note + ")"
+			}
+			fmt.Printf("VERIF-REPLAY FAILING-INPUT pair %q%s: previous %s current %s; buf.yaml {%s}: %s\n",
+				en.name, note, vrDescribe(en.prev, en.cur, violation), vrDescribe(en.cur, en.prev, violation), strings.Join(strings.Fields(config), " "), violation)
+		}
+	}
+	fmt.Printf("VERIF-REPLAY checked %d pairs, %d failing (%d buf breaking runs, %.1fs)\n", checked, failing, env.calls, time.Since(start).Seconds())
+}
+
+// ---------------------------------------------------------------------------------------------------
+// the catalogue
+
+func vrP3(body string) string { return "syntax = \"proto3\";\npackage p;\n" + body }
+func vrP2(body string) string { return "syntax = \"proto2\";\npackage p;\n" + body }
+func vrEd(body string) string { return "edition = \"2023\";\npackage p;\n" + body }
+
+func vrOne(src string) map[string]string { return map[string]string{"a.proto": src} }
+
+type vrCat struct{ entries []vrEntry }
+
+func (c *vrCat) add(name string, rules []string, prev, cur map[string]string, exp ...vrExp) *vrEntry {
+	c.entries = append(c.entries, vrEntry{name: name, rules: rules, prev: prev, cur: cur, exp: exp})
+	return &c.entries[len(c.entries)-1]
+}
+
+func (c *vrCat) addClean(name string, prev, cur map[string]string) {
+	c.entries = append(c.entries, vrEntry{name: name, prev: prev, cur: cur, clean: true})
+}
+
+func vrCatalogue() []vrEntry {
+	c := &vrCat{}
+	vrCatDeleteElements(c)
+	vrCatEnumValues(c)
+	vrCatFieldDelete(c)
+	vrCatFieldTypes(c)
+	vrCatFieldAttrs(c)
+	vrCatMessagesEnums(c)
+	vrCatRPC(c)
+	vrCatFileOptions(c)
+	vrCatReserved(c)
+	vrCatCompatible(c)
+	return c.entries
+}
+
+// --- deleting enums, messages, services, extensions, files, packages ---------------------------------
+
+func vrCatDeleteElements(c *vrCat) {
+	// anchors keep one enum, message, service and extension alive in package p
+	const anchor = "enum KeepE { KEEP_E_ZERO = 0; }\nmessage KeepM { optional int32 k = 1; extensions 100 to 199; }\nservice KeepS { rpc Ping(KeepM) returns (KeepM); }\nextend KeepM { optional int32 keep_ext = 100; }\n"
+
+	delRules := []string{"ENUM_NO_DELETE", "PACKAGE_ENUM_NO_DELETE", "MESSAGE_NO_DELETE", "PACKAGE_MESSAGE_NO_DELETE", "SERVICE_NO_DELETE", "PACKAGE_SERVICE_NO_DELETE",
+		"EXTENSION_NO_DELETE", "PACKAGE_EXTENSION_NO_DELETE", "FILE_NO_DELETE", "PACKAGE_NO_DELETE"}
+
+	// top-level elements deleted, file stays
+	c.add("delete-toplevel-enum", delRules,
+		vrOne(vrP2(anchor+"enum GoneEnum { GONE_ENUM_ZERO = 0; }\n")),
+		vrOne(vrP2(anchor+"message Added { optional int32 fresh = 1; }\n")),
+		vrE("ENUM_NO_DELETE", "a.proto", "", "GoneEnum"),
+		vrE("PACKAGE_ENUM_NO_DELETE", "a.proto", "", "GoneEnum"))
+	c.add("delete-toplevel-message", delRules,
+		vrOne(vrP2(anchor+"message GoneMsg { optional int32 x = 1; }\n")),
+		vrOne(vrP2(anchor+"enum AddedE { ADDED_E_ZERO = 0; }\n")),
+		vrE("MESSAGE_NO_DELETE", "a.proto", "", "GoneMsg"),
+		vrE("PACKAGE_MESSAGE_NO_DELETE", "a.proto", "", "GoneMsg"))
+	c.add("delete-service", delRules,
+		vrOne(vrP2(anchor+"service GoneSvc { rpc Call(KeepM) returns (KeepM); }\n")),
+		vrOne(vrP2(anchor)),
+		vrE("SERVICE_NO_DELETE", "a.proto", "", "GoneSvc"),
+		vrE("PACKAGE_SERVICE_NO_DELETE", "a.proto", "", "GoneSvc"))
+	c.add("delete-toplevel-extension", delRules,
+		vrOne(vrP2(anchor+"extend KeepM { optional string gone_ext = 101; }\n")),
+		vrOne(vrP2(anchor)),
+		vrE("EXTENSION_NO_DELETE", "a.proto", "", "gone_ext"),
+		vrE("PACKAGE_EXTENSION_NO_DELETE", "a.proto", "", "gone_ext"))
+
+	// nested elements deleted: located at the closest surviving enclosing message
+	c.add("delete-nested-enum", delRules,
+		vrOne(vrP3("message Outer {\n  enum InnerGone { INNER_GONE_ZERO = 0; }\n  enum InnerKeep { INNER_KEEP_ZERO = 0; }\n  int32 x = 1;\n}\nenum TopKeep { TOP_KEEP_ZERO = 0; }\n")),
+		vrOne(vrP3("// a comment\nmessage Outer { /*1*/\n  enum InnerKeep { INNER_KEEP_ZERO = 0; }\n  int32 x = 1;\n  int32 y = 2;\n}\nenum TopKeep { TOP_KEEP_ZERO = 0; }\n")),
+		vrE("ENUM_NO_DELETE", "a.proto", "/*1*/", "Outer.InnerGone"),
+		vrE("PACKAGE_ENUM_NO_DELETE", "a.proto", "/*1*/", "Outer.InnerGone"))
+	c.add("delete-nested-message", delRules,
+		vrOne(vrP3("message Top {}\nmessage Outer {\n  message InnerGone { int32 a = 1; }\n  message InnerKeep {}\n}\n")),
+		vrOne(vrP3("message Top {}\n\n\nmessage Outer { /*1*/\n  message InnerKeep {}\n}\n")),
+		vrE("MESSAGE_NO_DELETE", "a.proto", "/*1*/", "Outer.InnerGone"),
+		vrE("PACKAGE_MESSAGE_NO_DELETE", "a.proto", "/*1*/", "Outer.InnerGone"))
+	c.add("delete-deeply-nested", delRules,
+		vrOne(vrP3("message Outer {\n  message Mid {\n    enum DeepEnum { DEEP_ENUM_ZERO = 0; }\n    message DeepMsg {}\n  }\n  message MidKeep {\n    enum E2 { E2_ZERO = 0; }\n  }\n}\nenum TopKeep { TOP_KEEP_ZERO = 0; }\n")),
+		vrOne(vrP3("message Outer { /*1*/\n  message MidKeep { /*2*/\n  }\n}\nenum TopKeep { TOP_KEEP_ZERO = 0; }\nenum E2 { E2_ZERO = 0; }\n")),
+		vrE("ENUM_NO_DELETE", "a.proto", "/*1*/", "Outer.Mid.DeepEnum"),
+		vrE("PACKAGE_ENUM_NO_DELETE", "a.proto", "/*1*/", "Outer.Mid.DeepEnum"),
+		vrE("ENUM_NO_DELETE", "a.proto", "/*2*/", "Outer.MidKeep.E2"),
+		vrE("PACKAGE_ENUM_NO_DELETE", "a.proto", "/*2*/", "Outer.MidKeep.E2"),
+		vrE("MESSAGE_NO_DELETE", "a.proto", "/*1*/", "Outer.Mid"),
+		vrE("PACKAGE_MESSAGE_NO_DELETE", "a.proto", "/*1*/", "Outer.Mid"),
+		vrE("MESSAGE_NO_DELETE", "a.proto", "/*1*/", "Outer.Mid.DeepMsg"),
+		vrE("PACKAGE_MESSAGE_NO_DELETE", "a.proto", "/*1*/", "Outer.Mid.DeepMsg"))
+	c.add("delete-nested-extension", delRules,
+		vrOne(vrP2(anchor+"message Holder {\n  extend KeepM { optional int32 nested_gone = 110; optional int32 nested_keep = 111; }\n}\n")),
+		vrOne(vrP2(anchor+"message Holder { /*1*/\n  extend KeepM { optional int32 nested_keep = 111; }\n}\n")),
+		vrE("EXTENSION_NO_DELETE", "a.proto", "/*1*/", "Holder.nested_gone"),
+		vrE("PACKAGE_EXTENSION_NO_DELETE", "a.proto", "/*1*/", "Holder.nested_gone"))
+
+	// second file of the package: elements deleted there
+	c.add("delete-in-second-file", delRules,
+		map[string]string{"a.proto": vrP2(anchor), "dir/b.proto": vrP2("enum BGoneE { B_GONE_E_ZERO = 0; }\nmessage BGoneM {}\nmessage BKeep {}\nservice BGoneS {}\n")},
+		map[string]string{"a.proto": vrP2(anchor), "dir/b.proto": vrP2("message BKeep {}\n")},
+		vrE("ENUM_NO_DELETE", "dir/b.proto", "", "BGoneE"), vrE("PACKAGE_ENUM_NO_DELETE", "dir/b.proto", "", "BGoneE"),
+		vrE("MESSAGE_NO_DELETE", "dir/b.proto", "", "BGoneM"), vrE("PACKAGE_MESSAGE_NO_DELETE", "dir/b.proto", "", "BGoneM"),
+		vrE("SERVICE_NO_DELETE", "dir/b.proto", "", "BGoneS"), vrE("PACKAGE_SERVICE_NO_DELETE", "dir/b.proto", "", "BGoneS"))
+
+	// moved to another file of the same package: the FILE rules fire, the PACKAGE rules stay silent
+	c.add("move-to-other-file-same-package", delRules,
+		map[string]string{"a.proto": vrP2(anchor + "enum MovedE { MOVED_E_ZERO = 0; }\nmessage MovedM { message In {} }\nservice MovedS {}\nextend KeepM { optional int32 moved_ext = 120; }\n"),
+			"b.proto": vrP2("message B {}\n")},
+		map[string]string{"a.proto": vrP2(anchor),
+			"b.proto": vrP2("import \"a.proto\";\nmessage B {}\nenum MovedE { MOVED_E_ZERO = 0; }\nmessage MovedM { message In {} }\nservice MovedS {}\nextend KeepM { optional int32 moved_ext = 120; }\n")},
+		vrE("ENUM_NO_DELETE", "a.proto", "", "MovedE"),
+		vrE("MESSAGE_NO_DELETE", "a.proto", "", "MovedM"), vrE("MESSAGE_NO_DELETE", "a.proto", "", "MovedM.In"),
+		vrE("SERVICE_NO_DELETE", "a.proto", "", "MovedS"),
+		vrE("EXTENSION_NO_DELETE", "a.proto", "", "moved_ext"))
+
+	// the file holding the elements is deleted, the package survives through a.proto
+	c.add("delete-file-package-survives", delRules,
+		map[string]string{"a.proto": vrP2(anchor),
+			"c.proto": vrP2("import \"a.proto\";\nenum FileGoneE { FILE_GONE_E_ZERO = 0; }\nmessage FileGoneM { message Part {} }\nservice FileGoneS {}\nextend KeepM { optional int32 file_gone_ext = 130; }\n")},
+		map[string]string{"a.proto": vrP2(anchor + "message Fresh {}\n")},
+		vrE("FILE_NO_DELETE", "", "", "c.proto"),
+		vrE("PACKAGE_ENUM_NO_DELETE", "", "", "FileGoneE"),
+		vrE("PACKAGE_MESSAGE_NO_DELETE", "", "", "FileGoneM"), vrE("PACKAGE_MESSAGE_NO_DELETE", "", "", "FileGoneM.Part"),
+		vrE("PACKAGE_SERVICE_NO_DELETE", "", "", "FileGoneS"),
+		vrE("PACKAGE_EXTENSION_NO_DELETE", "", "", "file_gone_ext"))
+
+	// file renamed: FILE_NO_DELETE, nothing lost from the package
+	c.add("rename-file", delRules,
+		map[string]string{"a.proto": vrP2(anchor), "old_name.proto": vrP3("message R { int32 a = 1; }\nenum RE { RE_ZERO = 0; }\n")},
+		map[string]string{"a.proto": vrP2(anchor), "new_name.proto": vrP3("message R { int32 a = 1; }\nenum RE { RE_ZERO = 0; }\n")},
+		vrE("FILE_NO_DELETE", "", "", "old_name.proto"))
+
+	// whole package deleted (with its only file)
+	c.add("delete-package", delRules,
+		map[string]string{"a.proto": vrP2(anchor), "q/q.proto": "syntax = \"proto3\";\npackage q.v1;\nmessage Q {}\nenum QE { QE_ZERO = 0; }\n"},
+		map[string]string{"a.proto": vrP2(anchor)},
+		vrE("FILE_NO_DELETE", "", "", "q/q.proto"),
+		vrE("PACKAGE_NO_DELETE", "", "", "q.v1"))
+	// package deleted because its file moved to another package
+	c.add("delete-package-by-repackaging", append([]string{"FILE_SAME_PACKAGE"}, delRules...),
+		map[string]string{"a.proto": vrP2(anchor), "q.proto": "syntax = \"proto3\";\npackage q.v1;\nmessage Q {}\n"},
+		map[string]string{"a.proto": vrP2(anchor), "q.proto": "syntax = \"proto3\";\npackage q.v2; /*1*/\nmessage Q {}\n"},
+		vrE("FILE_SAME_PACKAGE", "q.proto", "/*1*/", "q.v1", "q.v2"),
+		vrE("PACKAGE_NO_DELETE", "", "", "q.v1"))
+}
+
+// --- deleting enum values / fields with and without reservations ---------------------------------------
+
+// vrReservation describes what the current version reserves in the element a value/field was deleted from.
+type vrReservation struct {
+	label  string
+	stmt   string   // the reserved statement(s) in the source
+	names  []string // reserved names
+	ranges [][2]int // reserved numbers, inclusive as written in the source
+}
+
+func (r vrReservation) hasNumber(n int) bool {
+	for _, rg := range r.ranges {
+		if rg[0] <= n && n <= rg[1] {
+			return true
+		}
+	}
+	return false
+}
+
+func (r vrReservation) hasAllNames(names ...string) bool {
+	for _, n := range names {
+		if !vrContains(r.names, n) {
+			return false
+		}
+	}
+	return true
+}
+
+func vrCatEnumValues(c *vrCat) {
+	rules := []string{"ENUM_VALUE_NO_DELETE", "ENUM_VALUE_NO_DELETE_UNLESS_NAME_RESERVED", "ENUM_VALUE_NO_DELETE_UNLESS_NUMBER_RESERVED"}
+	// documented: the plain rule is never exempted; the name rule is exempted iff ALL names of the deleted
+	// number are reserved; the number rule iff the number is reserved.
+	expect := func(file, mark, enumName string, number int, names []string, r vrReservation) []vrExp {
+		num := fmt.Sprintf("\"%d\"", number)
+		exp := []vrExp{vrE("ENUM_VALUE_NO_DELETE", file, mark, num, enumName)}
+		if !r.hasAllNames(names...) {
+			exp = append(exp, vrE("ENUM_VALUE_NO_DELETE_UNLESS_NAME_RESERVED", file, mark, num, enumName))
+		}
+		if !r.hasNumber(number) {
+			exp = append(exp, vrE("ENUM_VALUE_NO_DELETE_UNLESS_NUMBER_RESERVED", file, mark, num, enumName))
+		}
+		return exp
+	}
+	// plain enum: C_FOUR = 4 deleted
+	prevPlain := vrP3("enum Color {\n  C_ZERO = 0;\n  C_ONE = 1;\n  C_FOUR = 4;\n  C_NINE = 9;\n}\nmessage M { Color c = 1; }\n")
+	for _, r := range []vrReservation{
+		{label: "nothing-reserved"},
+		{label: "name-reserved", stmt: "reserved \"C_FOUR\";", names: []string{"C_FOUR"}},
+		{label: "other-name-reserved", stmt: "reserved \"C_FOUR_X\", \"C_FOU\";", names: []string{"C_FOUR_X", "C_FOU"}},
+		{label: "number-reserved", stmt: "reserved 4;", ranges: [][2]int{{4, 4}}},
+		{label: "both-reserved", stmt: "reserved 4;\n  reserved \"C_FOUR\";", names: []string{"C_FOUR"}, ranges: [][2]int{{4, 4}}},
+		{label: "range-ends-at-number", stmt: "reserved 2 to 4;", ranges: [][2]int{{2, 4}}},
+		{label: "range-starts-at-number", stmt: "reserved 4 to 8;", ranges: [][2]int{{4, 8}}},
+		{label: "range-inside", stmt: "reserved 2 to 8;", ranges: [][2]int{{2, 8}}},
+		{label: "range-just-below", stmt: "reserved 2 to 3;", ranges: [][2]int{{2, 3}}},
+		{label: "range-just-above", stmt: "reserved 5 to 8;", ranges: [][2]int{{5, 8}}},
+		{label: "two-ranges-around", stmt: "reserved 2 to 3, 5 to 8;", ranges: [][2]int{{2, 3}, {5, 8}}},
+		{label: "second-range-hits", stmt: "reserved 2, 4 to 5, 100 to max;\n  reserved \"OTHER\";", names: []string{"OTHER"}, ranges: [][2]int{{2, 2}, {4, 5}, {100, 2147483647}}},
+	} {
+		cur := vrP3("enum Color { /*1*/\n  " + r.stmt + "\n  C_ZERO = 0;\n  C_ONE = 1;\n  C_NINE = 9;\n  C_TWENTY = 20;\n}\nmessage M { Color c = 1; }\nmessage Fresh {}\n")
+		c.add("enum-value-delete/"+r.label, rules, vrOne(prevPlain), vrOne(cur), expect("a.proto", "/*1*/", "Color", 4, []string{"C_FOUR"}, r)...)
+	}
+	// negative number and the last value
+	c.add("enum-value-delete/negative-number-reserved", rules,
+		vrOne(vrP2("enum Neg { NEG_ZERO = 0; NEG_MINUS = -3; NEG_TOP = 7; }\n")),
+		vrOne(vrP2("enum Neg { /*1*/ \n  reserved -3;\n  NEG_ZERO = 0; }\n")),
+		append(expect("a.proto", "/*1*/", "Neg", -3, []string{"NEG_MINUS"}, vrReservation{ranges: [][2]int{{-3, -3}}}),
+			expect("a.proto", "/*1*/", "Neg", 7, []string{"NEG_TOP"}, vrReservation{ranges: [][2]int{{-3, -3}}})...)...)
+
+	// aliased enum: number 1 has the names A_ONE and A_UNO; both deleted
+	prevAlias := vrP3("enum Alias {\n  option allow_alias = true;\n  A_ZERO = 0;\n  A_ONE = 1;\n  A_UNO = 1;\n  A_TWO = 2;\n  A_DOS = 2;\n}\n")
+	for _, r := range []vrReservation{
+		{label: "alias-nothing-reserved"},
+		{label: "alias-one-name-reserved", stmt: "reserved \"A_ONE\";", names: []string{"A_ONE"}},
+		{label: "alias-other-name-reserved", stmt: "reserved \"A_UNO\";", names: []string{"A_UNO"}},
+		{label: "alias-all-names-reserved", stmt: "reserved \"A_UNO\", \"A_ONE\";", names: []string{"A_UNO", "A_ONE"}},
+		{label: "alias-number-reserved", stmt: "reserved 1;", ranges: [][2]int{{1, 1}}},
+		{label: "alias-number-and-one-name-reserved", stmt: "reserved 1;\n  reserved \"A_ONE\";", names: []string{"A_ONE"}, ranges: [][2]int{{1, 1}}},
+		{label: "alias-everything-reserved", stmt: "reserved 1;\n  reserved \"A_ONE\", \"A_UNO\";", names: []string{"A_ONE", "A_UNO"}, ranges: [][2]int{{1, 1}}},
+	} {
+		cur := vrP3("enum Alias { /*1*/\n  option allow_alias = true;\n  " + r.stmt + "\n  A_ZERO = 0;\n  A_TWO = 2;\n  A_DOS = 2;\n  A_THREE = 3;\n}\n")
+		c.add("enum-value-delete/"+r.label, rules, vrOne(prevAlias), vrOne(cur), expect("a.proto", "/*1*/", "Alias", 1, []string{"A_ONE", "A_UNO"}, r)...)
+	}
+	// only one alias name dropped, the number stays: no value was deleted
+	c.add("enum-value-delete/alias-name-dropped-number-stays", append([]string{"ENUM_VALUE_SAME_NAME"}, rules...), vrOne(prevAlias),
+		vrOne(vrP3("enum Alias {\n  option allow_alias = true;\n  A_ZERO = 0;\n  A_ONE = 1; /*1*/\n  A_TWO = 2;\n  A_DOS = 2;\n}\n")),
+		vrE("ENUM_VALUE_SAME_NAME", "a.proto", "/*1*/", "\"1\"", "Alias", "A_UNO"))
+
+	// nested enum, enum in a second file, enum moved to another file of the package, several deletions at once
+	c.add("enum-value-delete/nested-enum", rules,
+		vrOne(vrP3("message Outer {\n  message Inner {\n    enum Kind { KIND_ZERO = 0; KIND_ONE = 1; KIND_TWO = 2; }\n    Kind k = 1;\n  }\n}\n")),
+		vrOne(vrP3("message Outer {\n  message Inner {\n    enum Kind { /*1*/\n      reserved \"KIND_TWO\";\n      KIND_ZERO = 0; KIND_ONE = 1;\n    }\n    Kind k = 1;\n    string added = 2;\n  }\n}\n")),
+		expect("a.proto", "/*1*/", "Kind", 2, []string{"KIND_TWO"}, vrReservation{names: []string{"KIND_TWO"}})...)
+	c.add("enum-value-delete/second-file", rules,
+		map[string]string{"a.proto": vrP3("message A {}\n"), "z/b.proto": vrP3("enum InB {\n  IN_B_ZERO = 0;\n  IN_B_ONE = 1;\n}\n")},
+		map[string]string{"a.proto": vrP3("message A {}\n"), "z/b.proto": vrP3("\nenum InB { /*1*/\n  reserved 1;\n  IN_B_ZERO = 0;\n}\n")},
+		expect("z/b.proto", "/*1*/", "InB", 1, []string{"IN_B_ONE"}, vrReservation{ranges: [][2]int{{1, 1}}})...)
+	c.add("enum-value-delete/enum-moved-to-other-file", rules,
+		map[string]string{"a.proto": vrP3("enum Mv { MV_ZERO = 0; MV_ONE = 1; }\nmessage A {}\n"), "b.proto": vrP3("message B {}\n")},
+		map[string]string{"a.proto": vrP3("message A {}\n"), "b.proto": vrP3("message B {}\nenum Mv { /*1*/\n  MV_ZERO = 0; }\n")},
+		expect("b.proto", "/*1*/", "Mv", 1, []string{"MV_ONE"}, vrReservation{})...)
+	multi := append(expect("a.proto", "/*1*/", "Many", 1, []string{"MANY_ONE"}, vrReservation{names: []string{"MANY_ONE"}, ranges: [][2]int{{2, 2}}}),
+		expect("a.proto", "/*1*/", "Many", 2, []string{"MANY_TWO"}, vrReservation{names: []string{"MANY_ONE"}, ranges: [][2]int{{2, 2}}})...)
+	multi = append(multi, expect("a.proto", "/*1*/", "Many", 3, []string{"MANY_THREE"}, vrReservation{names: []string{"MANY_ONE"}, ranges: [][2]int{{2, 2}}})...)
+	c.add("enum-value-delete/three-values-mixed-reservations", rules,
+		vrOne(vrP3("enum Many { MANY_ZERO = 0; MANY_ONE = 1; MANY_TWO = 2; MANY_THREE = 3; }\n")),
+		vrOne(vrP3("enum Many { /*1*/\n  reserved 2;\n  reserved \"MANY_ONE\";\n  MANY_ZERO = 0; }\n")), multi...)
+
+	// a new alias name for an existing number: every previous name is still there, nothing to report
+	c.add("enum-value-alias-added", []string{"ENUM_VALUE_SAME_NAME", "ENUM_VALUE_NO_DELETE"},
+		vrOne(vrP3("enum Al {\n  option allow_alias = true;\n  AL_ZERO = 0;\n  AL_NULL = 0;\n  AL_ONE = 1;\n}\n")),
+		vrOne(vrP3("enum Al {\n  option allow_alias = true;\n  AL_ZERO = 0;\n  AL_NULL = 0;\n  AL_ONE = 1;\n  AL_UNO = 1;\n}\n")))
+	// renaming an enum value
+	c.add("enum-value-rename", []string{"ENUM_VALUE_SAME_NAME", "ENUM_VALUE_NO_DELETE"},
+		vrOne(vrP3("enum Ren {\n  REN_ZERO = 0;\n  REN_OLD = 1;\n  REN_KEEP = 2;\n}\n")),
+		vrOne(vrP3("enum Ren {\n  REN_ZERO = 0;\n  REN_NEW = 1; /*1*/\n  REN_KEEP = 2;\n  REN_ADDED = 3;\n}\n")),
+		vrE("ENUM_VALUE_SAME_NAME", "a.proto", "/*1*/", "REN_OLD", "REN_NEW", "Ren"))
+	c.add("enum-value-rename-nested", []string{"ENUM_VALUE_SAME_NAME"},
+		vrOne(vrP2("message W {\n  enum Ren {\n    REN_ZERO = 0;\n    REN_OLD = 5;\n  }\n}\n")),
+		vrOne(vrP2("message W {\n  enum Ren {\n    REN_ZERO = 0;\n    REN_RENAMED = 5; /*1*/\n  }\n}\n")),
+		vrE("ENUM_VALUE_SAME_NAME", "a.proto", "/*1*/", "REN_OLD", "REN_RENAMED"))
+}
+
+func vrCatFieldDelete(c *vrCat) {
+	rules := []string{"FIELD_NO_DELETE", "FIELD_NO_DELETE_UNLESS_NAME_RESERVED", "FIELD_NO_DELETE_UNLESS_NUMBER_RESERVED"}
+	expect := func(file, mark, msgName string, number int, name string, r vrReservation) []vrExp {
+		num := fmt.Sprintf("\"%d\"", number)
+		exp := []vrExp{vrE("FIELD_NO_DELETE", file, mark, num, msgName)}
+		if !r.hasAllNames(name) {
+			exp = append(exp, vrE("FIELD_NO_DELETE_UNLESS_NAME_RESERVED", file, mark, num, msgName))
+		}
+		if !r.hasNumber(number) {
+			exp = append(exp, vrE("FIELD_NO_DELETE_UNLESS_NUMBER_RESERVED", file, mark, num, msgName))
+		}
+		return exp
+	}
+	prev := vrP3("message Acct {\n  int32 id = 1;\n  string gone = 4;\n  bool last = 9;\n}\n")
+	for _, r := range []vrReservation{
+		{label: "nothing-reserved"},
+		{label: "name-reserved", stmt: "reserved \"gone\";", names: []string{"gone"}},
+		{label: "other-name-reserved", stmt: "reserved \"gone2\", \"gon\";", names: []string{"gone2", "gon"}},
+		{label: "number-reserved", stmt: "reserved 4;", ranges: [][2]int{{4, 4}}},
+		{label: "both-reserved", stmt: "reserved 4;\n  reserved \"gone\";", names: []string{"gone"}, ranges: [][2]int{{4, 4}}},
+		{label: "range-ends-at-number", stmt: "reserved 2 to 4;", ranges: [][2]int{{2, 4}}},
+		{label: "range-starts-at-number", stmt: "reserved 4 to 8;", ranges: [][2]int{{4, 8}}},
+		{label: "range-inside", stmt: "reserved 2 to 8;", ranges: [][2]int{{2, 8}}},
+		{label: "range-just-below", stmt: "reserved 2 to 3;", ranges: [][2]int{{2, 3}}},
+		{label: "range-just-above", stmt: "reserved 5 to 8;", ranges: [][2]int{{5, 8}}},
+		{label: "two-ranges-around", stmt: "reserved 2 to 3, 5 to 8;", ranges: [][2]int{{2, 3}, {5, 8}}},
+		{label: "second-range-hits", stmt: "reserved 2, 4 to 5, 100 to max;\n  reserved \"other\";", names: []string{"other"}, ranges: [][2]int{{2, 2}, {4, 5}, {100, 536870911}}},
+	} {
+		cur := vrP3("message Acct { /*1*/\n  " + r.stmt + "\n  int32 id = 1;\n  bool last = 9;\n  string fresh = 20;\n}\nenum FreshE { FRESH_E_ZERO = 0; }\n")
+		c.add("field-delete/"+r.label, rules, vrOne(prev), vrOne(cur), expect("a.proto", "/*1*/", "Acct", 4, "gone", r)...)
+	}
+	res := vrReservation{names: []string{"in_b"}, ranges: [][2]int{{3, 3}}}
+	c.add("field-delete/nested-message", rules,
+		vrOne(vrP3("message Outer {\n  message Inner {\n    int32 in_a = 1;\n    int32 in_b = 2;\n    int32 in_c = 3;\n  }\n  Inner i = 1;\n}\n")),
+		vrOne(vrP3("message Outer {\n  message Inner { /*1*/\n    reserved 3;\n    reserved \"in_b\";\n    int32 in_a = 1;\n  }\n  Inner i = 1;\n}\n")),
+		append(expect("a.proto", "/*1*/", "Inner", 2, "in_b", res), expect("a.proto", "/*1*/", "Inner", 3, "in_c", res)...)...)
+	c.add("field-delete/second-file-proto2", rules,
+		map[string]string{"a.proto": vrP3("message A {}\n"), "b.proto": vrP2("message InB {\n  optional int32 keep = 1;\n  optional string drop = 2;\n  repeated int32 drop_rep = 3;\n}\n")},
+		map[string]string{"a.proto": vrP3("message A {}\n"), "b.proto": vrP2("message InB { /*1*/\n  reserved 2;\n  optional int32 keep = 1;\n}\n")},
+		append(expect("b.proto", "/*1*/", "InB", 2, "drop", vrReservation{ranges: [][2]int{{2, 2}}}), expect("b.proto", "/*1*/", "InB", 3, "drop_rep", vrReservation{ranges: [][2]int{{2, 2}}})...)...)
+	c.add("field-delete/map-and-oneof-member", append([]string{"ONEOF_NO_DELETE"}, rules...),
+		vrOne(vrP3("message Bag {\n  map<string, int32> counts = 1;\n  oneof choice {\n    string by_name = 2;\n    int64 by_id = 3;\n  }\n  int32 keep = 4;\n}\n")),
+		vrOne(vrP3("message Bag { /*1*/\n  reserved \"counts\";\n  oneof choice {\n    string by_name = 2;\n  }\n  int32 keep = 4;\n}\n")),
+		append(expect("a.proto", "/*1*/", "Bag", 1, "counts", vrReservation{names: []string{"counts"}}), expect("a.proto", "/*1*/", "Bag", 3, "by_id", vrReservation{names: []string{"counts"}})...)...)
+	c.add("field-delete/message-moved-to-other-file", rules,
+		map[string]string{"a.proto": vrP3("message Mv { int32 a = 1; int32 b = 2; }\nmessage A {}\n"), "b.proto": vrP3("message B {}\n")},
+		map[string]string{"a.proto": vrP3("message A {}\n"), "b.proto": vrP3("message B {}\nmessage Mv { /*1*/\n  int32 a = 1; }\n")},
+		expect("b.proto", "/*1*/", "Mv", 2, "b", vrReservation{})...)
+	// number re-used by a new field is not a deletion of the number
+	c.add("field-delete/oneof-deleted-with-members", append([]string{"ONEOF_NO_DELETE"}, rules...),
+		vrOne(vrP3("message Sel {\n  oneof pick {\n    string a = 1;\n    string b = 2;\n  }\n  oneof stay { int32 s = 3; }\n}\n")),
+		vrOne(vrP3("message Sel { /*1*/\n  reserved 1, 2;\n  reserved \"a\", \"b\";\n  oneof stay { int32 s = 3; }\n  oneof newer { int32 n = 4; }\n}\n")),
+		vrE("ONEOF_NO_DELETE", "a.proto", "/*1*/", "pick", "Sel"),
+		vrE("FIELD_NO_DELETE", "a.proto", "/*1*/", "\"1\"", "Sel"), vrE("FIELD_NO_DELETE", "a.proto", "/*1*/", "\"2\"", "Sel"))
+	c.add("oneof-dissolved-members-stay", []string{"ONEOF_NO_DELETE", "FIELD_SAME_ONEOF", "FIELD_NO_DELETE"},
+		vrOne(vrP3("message Sel {\n  oneof pick {\n    string a = 1;\n    string b = 2;\n  }\n}\n")),
+		vrOne(vrP3("message Sel { /*1*/\n  string a = 1; /*2*/\n  string b = 2; /*3*/\n}\n")),
+		vrE("ONEOF_NO_DELETE", "a.proto", "/*1*/", "pick", "Sel"),
+		vrE("FIELD_SAME_ONEOF", "a.proto", "/*2*/", "\"1\""), vrE("FIELD_SAME_ONEOF", "a.proto", "/*3*/", "\"2\""))
+	c.add("oneof-deleted-nested-message", []string{"ONEOF_NO_DELETE"},
+		vrOne(vrP2("message Top {\n  message Deep {\n    oneof gone_oneof { int32 g = 1; }\n    oneof kept_oneof { int32 k = 2; }\n  }\n}\n")),
+		vrOne(vrP2("message Top {\n  message Deep { /*1*/\n    oneof kept_oneof { int32 k = 2; }\n  }\n}\n")),
+		vrE("ONEOF_NO_DELETE", "a.proto", "/*1*/", "gone_oneof", "Deep"))
+}
+
+// --- field type changes -----------------------------------------------------------------------------------
+
+var vrScalars = []string{"double", "float", "int32", "int64", "uint32", "uint64", "sint32", "sint64", "fixed32", "fixed64", "sfixed32", "sfixed64", "bool", "string", "bytes"}
+
+// documented groups: FIELD_WIRE_COMPATIBLE_TYPE - int32, uint32, int64, uint64, bool are compatible; sint32 and
+// sint64; fixed32 and sfixed32; fixed64 and sfixed64; string may become bytes (not the other way round).
+// FIELD_WIRE_JSON_COMPATIBLE_TYPE - int32 and uint32; int64 and uint64; fixed32 and sfixed32; fixed64 and sfixed64.
+func vrWireGroup(t string) string {
+	switch t {
+	case "int32", "uint32", "int64", "uint64", "bool":
+		return "varint"
+	case "sint32", "sint64":
+		return "zigzag"
+	case "fixed32", "sfixed32":
+		return "fixed32"
+	case "fixed64", "sfixed64":
+		return "fixed64"
+	}
+	return t
+}
+
+func vrWireJSONGroup(t string) string {
+	switch t {
+	case "int32", "uint32":
+		return "int32"
+	case "int64", "uint64":
+		return "int64"
+	case "fixed32", "sfixed32":
+		return "fixed32"
+	case "fixed64", "sfixed64":
+		return "fixed64"
+	}
+	return t
+}
+
+func vrCatFieldTypes(c *vrCat) {
+	rules := []string{"FIELD_SAME_TYPE", "FIELD_WIRE_COMPATIBLE_TYPE", "FIELD_WIRE_JSON_COMPATIBLE_TYPE"}
+	// scalar matrix: one field per ordered pair of different scalar types, proto3 and proto2 (repeated)
+	for _, variant := range []struct{ name, header, label string }{
+		{"proto3", "syntax = \"proto3\";\npackage p;\n", ""},
+		{"proto2-repeated-nested", "syntax = \"proto2\";\npackage p;\n", "repeated "},
+	} {
+		var prev, cur strings.Builder
+		prev.WriteString(variant.header)
+		cur.WriteString(variant.header)
+		open := "message T {\n"
+		if variant.label != "" {
+			open = "message Wrap {\nmessage T {\n"
+		}
+		prev.WriteString(open)
+		cur.WriteString(open)
+		var exp []vrExp
+		n := 0
+		for _, from := range vrScalars {
+			for _, to := range vrScalars {
+				n++
+				mark := fmt.Sprintf("/*f%d*/", n)
+				fmt.Fprintf(&prev, "  %s%s f%d = %d; %s\n", variant.label, from, n, n, mark)
+				fmt.Fprintf(&cur, "  %s%s f%d = %d; %s\n", variant.label, to, n, n, mark)
+				if from == to {
+					continue
+				}
+				names := []string{fmt.Sprintf("\"%d\"", n), fmt.Sprintf("\"f%d\"", n), "\"" + from + "\"", "\"" + to + "\""}
+				exp = append(exp, vrE("FIELD_SAME_TYPE", "a.proto", mark, names...))
+				if vrWireGroup(from) != vrWireGroup(to) && !(from == "string" && to == "bytes") {
+					exp = append(exp, vrE("FIELD_WIRE_COMPATIBLE_TYPE", "a.proto", mark, names...))
+				}
+				if vrWireJSONGroup(from) != vrWireJSONGroup(to) {
+					exp = append(exp, vrE("FIELD_WIRE_JSON_COMPATIBLE_TYPE", "a.proto", mark, names...))
+				}
+			}
+		}
+		closing := "}\n"
+		if variant.label != "" {
+			closing = "}\n}\n"
+		}
+		prev.WriteString(closing)
+		cur.WriteString(closing)
+		en := c.add("field-type-matrix/"+variant.name, rules, vrOne(prev.String()), vrOne(cur.String()), exp...)
+		en.note = "message T has one field f<N> per ordered pair of the 15 scalar types, changed from the first to the second type"
+	}
+
+	// enum / message / scalar crossings
+	c.add("field-type/enum-message-scalar-crossings", rules,
+		vrOne(vrP3("enum E1 { E1_ZERO = 0; E1_ONE = 1; }\nenum E2 { E2_ZERO = 0; E2_ONE = 1; }\nmessage S1 { int32 a = 1; }\nmessage S2 { int32 a = 1; }\n"+
+			"message T {\n  int32 i_to_e = 1;\n  E1 e_to_i = 2;\n  S1 m_to_bytes = 3;\n  bytes bytes_to_m = 4;\n  E1 e_to_other_e = 5;\n  S1 m_to_other_m = 6;\n  E1 e_to_m = 7;\n  E1 same_e = 8;\n  S1 same_m = 9;\n  repeated S1 rep_m = 10;\n  string s_to_m = 11;\n}\n")),
+		vrOne(vrP3("enum E1 { E1_ZERO = 0; E1_ONE = 1; }\nenum E2 { E2_ZERO = 0; E2_ONE = 1; }\nmessage S1 { int32 a = 1; }\nmessage S2 { int32 a = 1; }\n"+
+			"message T {\n  E1 i_to_e = 1; /*1*/\n  int32 e_to_i = 2; /*2*/\n  bytes m_to_bytes = 3; /*3*/\n  S1 bytes_to_m = 4; /*4*/\n  E2 e_to_other_e = 5; /*5*/\n  S2 m_to_other_m = 6; /*6*/\n  S1 e_to_m = 7; /*7*/\n  E1 same_e = 8;\n  S1 same_m = 9;\n  repeated S2 rep_m = 10; /*10*/\n  S1 s_to_m = 11; /*11*/\n}\n")),
+		vrAll3(rules, "a.proto", "/*1*/", "i_to_e", "/*2*/", "e_to_i", "/*3*/", "m_to_bytes", "/*4*/", "bytes_to_m", "/*5*/", "e_to_other_e",
+			"/*6*/", "m_to_other_m", "/*7*/", "e_to_m", "/*10*/", "rep_m", "/*11*/", "s_to_m")...)
+
+	// the field keeps its enum type name, the enum gains values: compatible for every rule
+	c.add("field-type/enum-grows", rules,
+		vrOne(vrP3("enum G { G_ZERO = 0; G_ONE = 1; }\nmessage T { G g = 1; }\n")),
+		vrOne(vrP3("enum G { G_ZERO = 0; G_ONE = 1; G_TWO = 2; }\nmessage T { G g = 1; }\n")))
+	// enum of the same short name in another scope with a superset of values: the wire rules accept it
+	c.add("field-type/enum-same-short-name-superset", rules,
+		vrOne(vrP3("enum Kind { KIND_ZERO = 0; KIND_ONE = 1; }\nmessage Box { enum Kind { KIND_ZERO = 0; KIND_ONE = 1; KIND_TWO = 2; }\n  Kind own = 2; }\nmessage T {\n  Kind k = 1;\n}\n")),
+		vrOne(vrP3("enum Kind { KIND_ZERO = 0; KIND_ONE = 1; }\nmessage Box { enum Kind { KIND_ZERO = 0; KIND_ONE = 1; KIND_TWO = 2; }\n  Kind own = 2; }\nmessage T {\n  Box.Kind k = 1; /*1*/\n}\n")),
+		vrE("FIELD_SAME_TYPE", "a.proto", "/*1*/", "\"k\"", "p.Kind", "p.Box.Kind"))
+	// ... and the other way round (values are lost): every rule reports
+	c.add("field-type/enum-same-short-name-subset", rules,
+		vrOne(vrP3("enum Kind { KIND_ZERO = 0; KIND_ONE = 1; }\nmessage Box { enum Kind { KIND_ZERO = 0; KIND_ONE = 1; KIND_TWO = 2; }\n  Kind own = 2; }\nmessage T {\n  Box.Kind k = 1;\n}\n")),
+		vrOne(vrP3("enum Kind { KIND_ZERO = 0; KIND_ONE = 1; }\nmessage Box { enum Kind { KIND_ZERO = 0; KIND_ONE = 1; KIND_TWO = 2; }\n  Kind own = 2; }\nmessage T {\n  Kind k = 1; /*1*/\n}\n")),
+		vrAll3(rules, "a.proto", "/*1*/", "\"k\"")...)
+
+	// nested message in a second file, map value, oneof member, extension, group
+	c.add("field-type/nested-second-file", rules,
+		map[string]string{"a.proto": vrP3("message A { int32 a = 1; }\n"), "sub/b.proto": vrP3("message O {\n  message I {\n    message J {\n      int32 deep = 1;\n      int32 same = 2;\n    }\n  }\n}\n")},
+		map[string]string{"a.proto": vrP3("message A { int32 a = 1; string added = 2; }\n"), "sub/b.proto": vrP3("message O {\n  message I {\n    message J {\n      string deep = 1; /*1*/\n      int32 same = 2;\n    }\n  }\n}\n")},
+		vrAll3(rules, "sub/b.proto", "/*1*/", "\"deep\"")...)
+	c.add("field-type/oneof-member-and-extension", rules,
+		vrOne(vrP2("message X {\n  oneof o {\n    int32 in_oneof = 1;\n    int32 stays = 2;\n  }\n  extensions 100 to 200;\n}\nextend X {\n  optional int32 top_ext = 100;\n}\nmessage Y {\n  extend X {\n    optional double nested_ext = 101;\n  }\n}\n")),
+		vrOne(vrP2("message X {\n  oneof o {\n    string in_oneof = 1; /*1*/\n    int32 stays = 2;\n  }\n  extensions 100 to 200;\n}\nextend X {\n  optional string top_ext = 100; /*2*/\n}\nmessage Y {\n  extend X {\n    optional float nested_ext = 101; /*3*/\n  }\n}\n")),
+		vrAll3(rules, "a.proto", "/*1*/", "in_oneof", "/*2*/", "top_ext", "/*3*/", "nested_ext")...)
+	c.add("field-type/wire-compatible-pairs-elsewhere", rules,
+		vrOne(vrP2("message X {\n  optional int32 a = 1;\n  optional string s = 2;\n  optional bytes b = 3;\n  optional fixed32 f = 4;\n  extensions 10 to 20;\n}\nextend X {\n  optional sint32 e = 10;\n}\n")),
+		vrOne(vrP2("message X {\n  optional uint32 a = 1; /*1*/\n  optional bytes s = 2; /*2*/\n  optional string b = 3; /*3*/\n  optional sfixed32 f = 4; /*4*/\n  extensions 10 to 20;\n}\nextend X {\n  optional sint64 e = 10; /*5*/\n}\n")),
+		vrE("FIELD_SAME_TYPE", "a.proto", "/*1*/", "\"a\""), vrE("FIELD_SAME_TYPE", "a.proto", "/*2*/", "\"s\""), vrE("FIELD_SAME_TYPE", "a.proto", "/*3*/", "\"b\""),
+		vrE("FIELD_SAME_TYPE", "a.proto", "/*4*/", "\"f\""), vrE("FIELD_SAME_TYPE", "a.proto", "/*5*/", "p.e"),
+		vrE("FIELD_WIRE_COMPATIBLE_TYPE", "a.proto", "/*3*/", "\"b\""),
+		vrE("FIELD_WIRE_JSON_COMPATIBLE_TYPE", "a.proto", "/*2*/", "\"s\""), vrE("FIELD_WIRE_JSON_COMPATIBLE_TYPE", "a.proto", "/*3*/", "\"b\""),
+		vrE("FIELD_WIRE_JSON_COMPATIBLE_TYPE", "a.proto", "/*5*/", "p.e"))
+	c.add("field-type/map-value", rules,
+		vrOne(vrP3("message T {\n  map<string, int32> m = 1;\n  map<string, int32> same = 2;\n}\n")),
+		vrOne(vrP3("message T {\n  map<string, string> m = 1; /*1*/\n  map<string, int32> same = 2;\n}\n")),
+		vrAll3(rules, "a.proto", "/*1*/", "\"value\"")...)
+	c.add("field-type/group-to-message", rules,
+		vrOne(vrP2("message T {\n  optional group Grp = 1 {\n    optional int32 a = 1;\n  }\n  optional int32 other = 2;\n}\n")),
+		vrOne(vrP2("message T {\n  message Grp {\n    optional int32 a = 1;\n  }\n  optional Grp grp = 1; /*1*/\n  optional int32 other = 2;\n}\n")),
+		vrAll3(rules, "a.proto", "/*1*/", "\"grp\"")...)
+}
+
+// vrAll3 expects every given rule at each (mark, name) pair.
+func vrAll3(rules []string, file string, markName ...string) []vrExp {
+	var exp []vrExp
+	for i := 0; i+1 < len(markName); i += 2 {
+		for _, r := range rules {
+			exp = append(exp, vrE(r, file, markName[i], markName[i+1]))
+		}
+	}
+	return exp
+}
+
+// --- other field attributes ------------------------------------------------------------------------------
+
+func vrCatFieldAttrs(c *vrCat) {
+	card := []string{"FIELD_SAME_CARDINALITY", "FIELD_WIRE_COMPATIBLE_CARDINALITY", "FIELD_WIRE_JSON_COMPATIBLE_CARDINALITY"}
+	c.add("cardinality/proto3-singular-repeated", card,
+		vrOne(vrP3("message T {\n  int32 to_rep = 1;\n  repeated string to_single = 2;\n  int32 same = 3;\n  repeated int32 same_rep = 4;\n  message N {\n    T to_rep_nested = 1;\n  }\n}\n")),
+		vrOne(vrP3("message T {\n  repeated int32 to_rep = 1; /*1*/\n  string to_single = 2; /*2*/\n  int32 same = 3;\n  repeated int32 same_rep = 4;\n  message N {\n    repeated T to_rep_nested = 1; /*3*/\n  }\n  int32 added = 5;\n}\n")),
+		vrAll3(card, "a.proto", "/*1*/", "to_rep", "/*2*/", "to_single", "/*3*/", "to_rep_nested")...)
+	// implicit <-> explicit presence: same wire and JSON encoding, only the strict rule reports
+	c.add("cardinality/proto3-optional-keyword", append([]string{"FIELD_SAME_ONEOF", "ONEOF_NO_DELETE"}, card...),
+		vrOne(vrP3("message T {\n  int32 gains = 1;\n  optional int32 loses = 2;\n  optional int32 same = 3;\n}\n")),
+		vrOne(vrP3("message T {\n  optional int32 gains = 1; /*1*/\n  int32 loses = 2; /*2*/\n  optional int32 same = 3;\n}\n")),
+		vrE("FIELD_SAME_CARDINALITY", "a.proto", "/*1*/", "gains"), vrE("FIELD_SAME_CARDINALITY", "a.proto", "/*2*/", "loses"))
+	c.add("cardinality/proto2-required", append([]string{"MESSAGE_SAME_REQUIRED_FIELDS"}, card...),
+		vrOne(vrP2("message T {\n  optional int32 becomes_req = 1;\n  required int32 becomes_opt = 2;\n  required int32 stays_req = 3;\n  optional int32 to_rep = 4;\n}\n")),
+		vrOne(vrP2("message T { /*0*/\n  required int32 becomes_req = 1; /*1*/\n  optional int32 becomes_opt = 2; /*2*/\n  required int32 stays_req = 3;\n  repeated int32 to_rep = 4; /*4*/\n}\n")),
+		append(vrAll3(card, "a.proto", "/*1*/", "becomes_req", "/*2*/", "becomes_opt", "/*4*/", "to_rep"),
+			vrE("MESSAGE_SAME_REQUIRED_FIELDS", "a.proto", "/*1*/", "\"1\"", "T"), vrE("MESSAGE_SAME_REQUIRED_FIELDS", "a.proto", "/*0*/", "\"2\"", "T"))...)
+	c.add("cardinality/extension-and-second-file", card,
+		map[string]string{"a.proto": vrP2("message X { extensions 10 to 20; }\n"), "b.proto": vrP2("import \"a.proto\";\nextend X {\n  optional int32 ext_to_rep = 10;\n}\nmessage InB {\n  repeated int32 r = 1;\n}\n")},
+		map[string]string{"a.proto": vrP2("message X { extensions 10 to 20; }\n"), "b.proto": vrP2("import \"a.proto\";\nextend X {\n  repeated int32 ext_to_rep = 10; /*1*/\n}\nmessage InB {\n  optional int32 r = 1; /*2*/\n}\n")},
+		vrAll3(card, "b.proto", "/*1*/", "ext_to_rep", "/*2*/", "\"r\"")...)
+	// repeated entry message <-> map: same bytes on the wire, different JSON (array vs object)
+	c.add("cardinality/repeated-entries-to-map", card,
+		vrOne(vrP3("message T {\n  message PairsEntry {\n    string key = 1;\n    int32 value = 2;\n  }\n  repeated PairsEntry pairs = 1;\n}\n")),
+		vrOne(vrP3("message T {\n  map<string, int32> pairs = 1; /*1*/\n}\n")),
+		vrE("FIELD_SAME_CARDINALITY", "a.proto", "/*1*/", "pairs"), vrE("FIELD_WIRE_JSON_COMPATIBLE_CARDINALITY", "a.proto", "/*1*/", "pairs"))
+	c.add("cardinality/required-added-and-deleted", []string{"MESSAGE_SAME_REQUIRED_FIELDS"},
+		vrOne(vrP2("message T {\n  required int32 stays = 1;\n  required int32 dropped = 2;\n  message In {\n    optional int32 o = 1;\n  }\n}\n")),
+		vrOne(vrP2("message T { /*0*/\n  required int32 stays = 1;\n  optional int32 fresh_opt = 3;\n  message In {\n    optional int32 o = 1;\n    required string fresh_req = 2; /*1*/\n  }\n}\n")),
+		vrE("MESSAGE_SAME_REQUIRED_FIELDS", "a.proto", "/*0*/", "\"2\"", "T"), vrE("MESSAGE_SAME_REQUIRED_FIELDS", "a.proto", "/*1*/", "\"2\"", "In"))
+
+	names := []string{"FIELD_SAME_NAME", "FIELD_SAME_JSON_NAME"}
+	c.add("field-rename", names,
+		vrOne(vrP3("message T {\n  int32 old_name = 1;\n  int32 same = 2;\n  message N {\n    string inner_old = 1;\n  }\n  oneof o {\n    int32 member_old = 3;\n  }\n}\n")),
+		vrOne(vrP3("message T {\n  int32 new_name = 1; /*1*/\n  int32 same = 2;\n  message N {\n    string inner_new = 1; /*2*/\n  }\n  oneof o {\n    int32 member_new = 3; /*3*/\n  }\n  int32 fresh = 4;\n}\n")),
+		vrE("FIELD_SAME_NAME", "a.proto", "/*1*/", "old_name", "new_name"), vrE("FIELD_SAME_JSON_NAME", "a.proto", "/*1*/", "oldName", "newName"),
+		vrE("FIELD_SAME_NAME", "a.proto", "/*2*/", "inner_old", "inner_new"), vrE("FIELD_SAME_JSON_NAME", "a.proto", "/*2*/", "innerOld", "innerNew"),
+		vrE("FIELD_SAME_NAME", "a.proto", "/*3*/", "member_old", "member_new"), vrE("FIELD_SAME_JSON_NAME", "a.proto", "/*3*/", "memberOld", "memberNew"))
+	c.add("field-rename/extension", []string{"FIELD_SAME_NAME"},
+		vrOne(vrP2("message X { extensions 10 to 20; }\nextend X {\n  optional int32 ext_old = 10;\n  optional int32 ext_same = 11;\n}\n")),
+		vrOne(vrP2("message X { extensions 10 to 20; }\nextend X {\n  optional int32 ext_new = 10; /*1*/\n  optional int32 ext_same = 11;\n}\n")),
+		vrE("FIELD_SAME_NAME", "a.proto", "/*1*/", "ext_old", "ext_new"))
+	c.add("field-json-name", names,
+		vrOne(vrP3("message T {\n  int32 a = 1 [json_name = \"alpha\"];\n  int32 b = 2;\n  int32 c = 3 [json_name = \"gamma\"];\n  int32 d = 4 [json_name = \"delta\"];\n  int32 e = 5;\n}\n")),
+		vrOne(vrP3("message T {\n  int32 a = 1 [json_name = \"ALPHA\"]; /*1*/\n  int32 b = 2 [json_name = \"beta\"]; /*2*/\n  int32 c = 3; /*3*/\n  int32 d = 4 [json_name = \"delta\"];\n  int32 e = 5 [json_name = \"e\"];\n}\n")),
+		vrE("FIELD_SAME_JSON_NAME", "a.proto", "/*1*/", "alpha", "ALPHA"), vrE("FIELD_SAME_JSON_NAME", "a.proto", "/*2*/", "\"b\"", "beta"),
+		vrE("FIELD_SAME_JSON_NAME", "a.proto", "/*3*/", "gamma", "\"c\""))
+
+	c.add("field-jstype", []string{"FIELD_SAME_JSTYPE"},
+		vrOne(vrP3("message T {\n  int64 a = 1;\n  uint64 b = 2 [jstype = JS_STRING];\n  fixed64 c = 3 [jstype = JS_STRING];\n  sint64 same = 4 [jstype = JS_NUMBER];\n  message N {\n    sfixed64 d = 1 [jstype = JS_NUMBER];\n  }\n}\n")),
+		vrOne(vrP3("message T {\n  int64 a = 1 [jstype = JS_STRING]; /*1*/\n  uint64 b = 2 [jstype = JS_NUMBER]; /*2*/\n  fixed64 c = 3; /*3*/\n  sint64 same = 4 [jstype = JS_NUMBER];\n  message N {\n    sfixed64 d = 1 [jstype = JS_STRING]; /*4*/\n  }\n}\n")),
+		vrE("FIELD_SAME_JSTYPE", "a.proto", "/*1*/", "\"a\"", "JS_NORMAL", "JS_STRING"), vrE("FIELD_SAME_JSTYPE", "a.proto", "/*2*/", "\"b\"", "JS_STRING", "JS_NUMBER"),
+		vrE("FIELD_SAME_JSTYPE", "a.proto", "/*3*/", "\"c\"", "JS_STRING", "JS_NORMAL"), vrE("FIELD_SAME_JSTYPE", "a.proto", "/*4*/", "\"d\"", "JS_NUMBER", "JS_STRING"))
+
+	c.add("field-ctype", []string{"FIELD_SAME_CPP_STRING_TYPE"},
+		vrOne(vrP3("message T {\n  string a = 1;\n  bytes b = 2 [ctype = CORD];\n  string c = 3 [ctype = CORD];\n  string same = 4 [ctype = CORD];\n  string plain = 5;\n}\n")),
+		vrOne(vrP3("message T {\n  string a = 1 [ctype = CORD]; /*1*/\n  bytes b = 2 [ctype = STRING_PIECE]; /*2*/\n  string c = 3; /*3*/\n  string same = 4 [ctype = CORD];\n  string plain = 5 [ctype = STRING];\n}\n")),
+		vrE("FIELD_SAME_CPP_STRING_TYPE", "a.proto", "/*1*/", "\"a\"", "CORD"), vrE("FIELD_SAME_CPP_STRING_TYPE", "a.proto", "/*2*/", "\"b\"", "CORD", "STRING_PIECE"),
+		vrE("FIELD_SAME_CPP_STRING_TYPE", "a.proto", "/*3*/", "\"c\"", "CORD"))
+
+	c.add("field-default", []string{"FIELD_SAME_DEFAULT"},
+		vrOne(vrP2("enum D { D_A = 1; D_B = 2; }\nmessage T {\n  optional int32 i = 1 [default = 5];\n  optional string s = 2 [default = \"abc\"];\n  optional D e = 3 [default = D_A];\n  optional double f = 4 [default = 1.5];\n  optional bool b = 5 [default = true];\n  optional int32 gains = 6;\n  optional int32 loses = 7 [default = 9];\n  optional int64 same = 8 [default = -7];\n  optional string none = 9;\n  optional bytes by = 10 [default = \"xy\"];\n  message N {\n    optional uint64 u = 1 [default = 10];\n  }\n}\n")),
+		vrOne(vrP2("enum D { D_A = 1; D_B = 2; }\nmessage T {\n  optional int32 i = 1 [default = 6]; /*1*/\n  optional string s = 2 [default = \"abd\"]; /*2*/\n  optional D e = 3 [default = D_B]; /*3*/\n  optional double f = 4 [default = 2.5]; /*4*/\n  optional bool b = 5 [default = false]; /*5*/\n  optional int32 gains = 6 [default = 3]; /*6*/\n  optional int32 loses = 7; /*7*/\n  optional int64 same = 8 [default = -7];\n  optional string none = 9;\n  optional bytes by = 10 [default = \"xz\"]; /*10*/\n  message N {\n    optional uint64 u = 1 [default = 11]; /*11*/\n  }\n}\n")),
+		vrE("FIELD_SAME_DEFAULT", "a.proto", "/*1*/", "\"i\"", "5", "6"), vrE("FIELD_SAME_DEFAULT", "a.proto", "/*2*/", "\"s\"", "abc", "abd"),
+		vrE("FIELD_SAME_DEFAULT", "a.proto", "/*3*/", "\"e\"", "D_A", "D_B"), vrE("FIELD_SAME_DEFAULT", "a.proto", "/*4*/", "\"f\"", "1.5", "2.5"),
+		vrE("FIELD_SAME_DEFAULT", "a.proto", "/*5*/", "\"b\"", "true", "false"), vrE("FIELD_SAME_DEFAULT", "a.proto", "/*6*/", "\"gains\"", "3"),
+		vrE("FIELD_SAME_DEFAULT", "a.proto", "/*7*/", "\"loses\"", "9"), vrE("FIELD_SAME_DEFAULT", "a.proto", "/*10*/", "\"by\""),
+		vrE("FIELD_SAME_DEFAULT", "a.proto", "/*11*/", "\"u\"", "10", "11"))
+	c.add("field-default/extension", []string{"FIELD_SAME_DEFAULT"},
+		vrOne(vrP2("message X { extensions 10 to 20; }\nextend X {\n  optional int32 ext = 10 [default = 1];\n}\n")),
+		vrOne(vrP2("message X { extensions 10 to 20; }\nextend X {\n  optional int32 ext = 10 [default = 2]; /*1*/\n}\n")),
+		vrE("FIELD_SAME_DEFAULT", "a.proto", "/*1*/", "p.ext", "1", "2"))
+
+	c.add("field-oneof-membership", []string{"FIELD_SAME_ONEOF", "ONEOF_NO_DELETE"},
+		vrOne(vrP3("message T {\n  int32 joins = 1;\n  oneof first {\n    int32 leaves = 2;\n    int32 moves = 3;\n    int32 stays = 4;\n  }\n  oneof second {\n    int32 anchor = 5;\n  }\n  int32 outside = 6;\n  message N {\n    oneof o { string x = 1; string y = 2; }\n  }\n}\n")),
+		vrOne(vrP3("message T {\n  int32 leaves = 2; /*2*/\n  oneof first {\n    int32 joins = 1; /*1*/\n    int32 stays = 4;\n  }\n  oneof second {\n    int32 anchor = 5;\n    int32 moves = 3; /*3*/\n  }\n  int32 outside = 6;\n  message N {\n    oneof o { string x = 1; }\n    string y = 2; /*4*/\n  }\n}\n")),
+		vrE("FIELD_SAME_ONEOF", "a.proto", "/*1*/", "joins"), vrE("FIELD_SAME_ONEOF", "a.proto", "/*2*/", "leaves"),
+		vrE("FIELD_SAME_ONEOF", "a.proto", "/*3*/", "moves", "first", "second"), vrE("FIELD_SAME_ONEOF", "a.proto", "/*4*/", "\"y\""))
+
+	// UTF8 validation: editions feature on the field / file, and java_string_check_utf8
+	c.add("field-utf8-validation/editions", []string{"FIELD_SAME_UTF8_VALIDATION"},
+		vrOne(vrEd("message T {\n  string a = 1;\n  string b = 2 [features.utf8_validation = NONE];\n  string same = 3 [features.utf8_validation = NONE];\n  bytes not_string = 4;\n}\n")),
+		vrOne(vrEd("message T {\n  string a = 1 [features.utf8_validation = NONE]; /*1*/\n  string b = 2; /*2*/\n  string same = 3 [features.utf8_validation = NONE];\n  bytes not_string = 4;\n}\n")),
+		vrE("FIELD_SAME_UTF8_VALIDATION", "a.proto", "/*1*/", "\"a\"", "VERIFY", "NONE"), vrE("FIELD_SAME_UTF8_VALIDATION", "a.proto", "/*2*/", "\"b\"", "NONE", "VERIFY"))
+	c.add("field-utf8-validation/proto2-to-proto3", []string{"FIELD_SAME_UTF8_VALIDATION", "FILE_SAME_SYNTAX"},
+		vrOne("syntax = \"proto2\";\npackage p;\nmessage T {\n  optional string s = 1;\n  optional bytes b = 2;\n  optional int32 i = 3;\n}\n"),
+		vrOne("syntax = \"proto3\"; /*0*/\npackage p;\nmessage T {\n  optional string s = 1; /*1*/\n  optional bytes b = 2;\n  optional int32 i = 3;\n}\n"),
+		vrE("FIELD_SAME_UTF8_VALIDATION", "a.proto", "/*1*/", "\"s\"", "NONE", "VERIFY"), vrE("FILE_SAME_SYNTAX", "a.proto", "/*0*/", "proto2", "proto3"))
+	c.add("field-java-utf8-validation/file-option", []string{"FIELD_SAME_JAVA_UTF8_VALIDATION"},
+		map[string]string{"a.proto": vrP2("message T {\n  optional string s = 1;\n  optional bytes b = 2;\n}\n"), "b.proto": vrP2("option java_string_check_utf8 = true;\nmessage U {\n  optional string s = 1;\n}\n"),
+			"c.proto": vrP2("option java_string_check_utf8 = true;\nmessage V {\n  optional string s = 1;\n}\n")},
+		map[string]string{"a.proto": vrP2("option java_string_check_utf8 = true; /*1*/\nmessage T {\n  optional string s = 1;\n  optional bytes b = 2;\n}\n"), "b.proto": vrP2("option java_string_check_utf8 = false; /*2*/\nmessage U {\n  optional string s = 1;\n}\n"),
+			"c.proto": vrP2("option java_string_check_utf8 = true;\nmessage V {\n  optional string s = 1;\n}\n")},
+		vrE("FIELD_SAME_JAVA_UTF8_VALIDATION", "a.proto", "/*1*/", "\"s\"", "NONE", "VERIFY"), vrE("FIELD_SAME_JAVA_UTF8_VALIDATION", "b.proto", "/*2*/", "\"s\"", "VERIFY", "NONE"))
+}
+
+// --- message / enum level attributes -------------------------------------------------------------------
+
+func vrCatMessagesEnums(c *vrCat) {
+	c.add("message-no-standard-descriptor-accessor", []string{"MESSAGE_NO_REMOVE_STANDARD_DESCRIPTOR_ACCESSOR"},
+		vrOne(vrP3("message Unset {}\nmessage WasFalse {\n  option no_standard_descriptor_accessor = false;\n}\nmessage WasTrue {\n  option no_standard_descriptor_accessor = true;\n}\nmessage StaysTrue {\n  option no_standard_descriptor_accessor = true;\n}\nmessage O {\n  message Nested {}\n}\n")),
+		vrOne(vrP3("message Unset {\n  option no_standard_descriptor_accessor = true; /*1*/\n}\nmessage WasFalse {\n  option no_standard_descriptor_accessor = true; /*2*/\n}\nmessage WasTrue {\n  option no_standard_descriptor_accessor = false;\n}\nmessage StaysTrue {\n  option no_standard_descriptor_accessor = true;\n}\nmessage O {\n  message Nested {\n    option no_standard_descriptor_accessor = true; /*3*/\n  }\n}\n")),
+		vrE("MESSAGE_NO_REMOVE_STANDARD_DESCRIPTOR_ACCESSOR", "a.proto", "/*1*/", "false", "true"),
+		vrE("MESSAGE_NO_REMOVE_STANDARD_DESCRIPTOR_ACCESSOR", "a.proto", "/*2*/", "false", "true"),
+		vrE("MESSAGE_NO_REMOVE_STANDARD_DESCRIPTOR_ACCESSOR", "a.proto", "/*3*/", "false", "true"))
+	c.add("json-format/editions", []string{"MESSAGE_SAME_JSON_FORMAT", "ENUM_SAME_JSON_FORMAT"},
+		vrOne(vrEd("message M {\n  int32 a = 1;\n  message N {\n    int32 b = 1;\n  }\n}\nmessage Same {\n  option features.json_format = LEGACY_BEST_EFFORT;\n}\nenum E {\n  E_ZERO = 0;\n}\nenum SameE {\n  option features.json_format = LEGACY_BEST_EFFORT;\n  SAME_E_ZERO = 0;\n}\n")),
+		vrOne(vrEd("message M {\n  option features.json_format = LEGACY_BEST_EFFORT; /*1*/\n  int32 a = 1;\n  message N { /*1n*/\n    int32 b = 1;\n  }\n}\nmessage Same {\n  option features.json_format = LEGACY_BEST_EFFORT;\n}\nenum E {\n  option features.json_format = LEGACY_BEST_EFFORT; /*2*/\n  E_ZERO = 0;\n}\nenum SameE {\n  option features.json_format = LEGACY_BEST_EFFORT;\n  SAME_E_ZERO = 0;\n}\n")),
+		vrE("MESSAGE_SAME_JSON_FORMAT", "a.proto", "/*1*/", "\"M\"", "ALLOW", "LEGACY_BEST_EFFORT"),
+		vrE("MESSAGE_SAME_JSON_FORMAT", "a.proto", "/*1n*/", "\"N\"", "ALLOW", "LEGACY_BEST_EFFORT"),
+		vrE("ENUM_SAME_JSON_FORMAT", "a.proto", "/*2*/", "\"E\"", "ALLOW", "LEGACY_BEST_EFFORT"))
+	c.add("json-format/proto3-to-proto2", []string{"MESSAGE_SAME_JSON_FORMAT", "ENUM_SAME_JSON_FORMAT", "ENUM_SAME_TYPE", "FILE_SAME_SYNTAX"},
+		vrOne("syntax = \"proto3\";\npackage p;\nmessage M {\n}\nenum E {\n  E_ZERO = 0;\n}\n"),
+		vrOne("syntax = \"proto2\"; /*0*/\npackage p;\nmessage M { /*1*/\n}\nenum E { /*2*/\n  E_ZERO = 0;\n}\n"),
+		vrE("FILE_SAME_SYNTAX", "a.proto", "/*0*/", "proto3", "proto2"),
+		vrE("MESSAGE_SAME_JSON_FORMAT", "a.proto", "/*1*/", "\"M\""), vrE("ENUM_SAME_JSON_FORMAT", "a.proto", "/*2*/", "\"E\""),
+		vrE("ENUM_SAME_TYPE", "a.proto", "/*2*/", "\"E\"", "open", "closed"))
+	c.add("enum-type/editions", []string{"ENUM_SAME_TYPE"},
+		vrOne(vrEd("enum Opens {\n  option features.enum_type = CLOSED;\n  OPENS_ZERO = 0;\n}\nenum Closes {\n  CLOSES_ZERO = 0;\n}\nenum Same {\n  option features.enum_type = CLOSED;\n  SAME_ZERO = 0;\n}\nmessage W {\n  enum In {\n    IN_ZERO = 0;\n  }\n}\n")),
+		vrOne(vrEd("enum Opens { /*1*/\n  OPENS_ZERO = 0;\n}\nenum Closes {\n  option features.enum_type = CLOSED; /*2*/\n  CLOSES_ZERO = 0;\n}\nenum Same {\n  option features.enum_type = CLOSED;\n  SAME_ZERO = 0;\n}\nmessage W {\n  enum In {\n    option features.enum_type = CLOSED; /*3*/\n    IN_ZERO = 0;\n  }\n}\n")),
+		vrE("ENUM_SAME_TYPE", "a.proto", "/*1*/", "\"Opens\"", "closed", "open"), vrE("ENUM_SAME_TYPE", "a.proto", "/*2*/", "\"Closes\"", "open", "closed"),
+		vrE("ENUM_SAME_TYPE", "a.proto", "/*3*/", "\"In\"", "open", "closed"))
+}
+
+// --- services and RPCs ---------------------------------------------------------------------------------------
+
+func vrCatRPC(c *vrCat) {
+	rules := []string{"RPC_NO_DELETE", "RPC_SAME_CLIENT_STREAMING", "RPC_SAME_SERVER_STREAMING", "RPC_SAME_REQUEST_TYPE", "RPC_SAME_RESPONSE_TYPE", "RPC_SAME_IDEMPOTENCY_LEVEL"}
+	const msgs = "message Req {}\nmessage Res {}\nmessage Req2 {}\nmessage Res2 {}\n"
+	c.add("rpc-delete", rules,
+		vrOne(vrP3(msgs+"service Api {\n  rpc Keep(Req) returns (Res);\n  rpc Gone(Req) returns (Res);\n  rpc AlsoGone(stream Req) returns (Res);\n}\nservice Other {\n  rpc Keep(Req) returns (Res);\n}\n")),
+		vrOne(vrP3(msgs+"service Api { /*1*/\n  rpc Keep(Req) returns (Res);\n  rpc Fresh(Req) returns (Res);\n}\nservice Other {\n  rpc Keep(Req) returns (Res);\n  rpc Gone(Req) returns (Res);\n}\n")),
+		vrE("RPC_NO_DELETE", "a.proto", "/*1*/", "\"Gone\"", "Api"), vrE("RPC_NO_DELETE", "a.proto", "/*1*/", "\"AlsoGone\"", "Api"))
+	c.add("rpc-signature-changes", rules,
+		vrOne(vrP3(msgs+"service Api {\n  rpc Same(Req) returns (Res);\n  rpc ClientStream(Req) returns (Res);\n  rpc ClientUnary(stream Req) returns (Res);\n  rpc ServerStream(Req) returns (Res);\n  rpc ServerUnary(Req) returns (stream Res);\n  rpc ReqType(Req) returns (Res);\n  rpc ResType(Req) returns (Res);\n  rpc Both(stream Req) returns (stream Res);\n}\n")),
+		vrOne(vrP3(msgs+"service Api {\n  rpc Same(Req) returns (Res);\n  rpc ClientStream(stream Req) returns (Res); /*1*/\n  rpc ClientUnary(Req) returns (Res); /*2*/\n  rpc ServerStream(Req) returns (stream Res); /*3*/\n  rpc ServerUnary(Req) returns (Res); /*4*/\n  rpc ReqType(Req2) returns (Res); /*5*/\n  rpc ResType(Req) returns (Res2); /*6*/\n  rpc Both(stream Req) returns (stream Res);\n  rpc Fresh(Req) returns (Res);\n}\n")),
+		vrE("RPC_SAME_CLIENT_STREAMING", "a.proto", "/*1*/", "ClientStream", "Api"), vrE("RPC_SAME_CLIENT_STREAMING", "a.proto", "/*2*/", "ClientUnary", "Api"),
+		vrE("RPC_SAME_SERVER_STREAMING", "a.proto", "/*3*/", "ServerStream", "Api"), vrE("RPC_SAME_SERVER_STREAMING", "a.proto", "/*4*/", "ServerUnary", "Api"),
+		vrE("RPC_SAME_REQUEST_TYPE", "a.proto", "/*5*/", "ReqType", "p.Req", "p.Req2"), vrE("RPC_SAME_RESPONSE_TYPE", "a.proto", "/*6*/", "ResType", "p.Res", "p.Res2"))
+	c.add("rpc-idempotency-level", rules,
+		vrOne(vrP3(msgs+"service Api {\n  rpc Changes(Req) returns (Res) {\n    option idempotency_level = NO_SIDE_EFFECTS;\n  }\n  rpc Gains(Req) returns (Res);\n  rpc Loses(Req) returns (Res) {\n    option idempotency_level = IDEMPOTENT;\n  }\n  rpc Same(Req) returns (Res) {\n    option idempotency_level = IDEMPOTENT;\n  }\n}\n")),
+		vrOne(vrP3(msgs+"service Api {\n  rpc Changes(Req) returns (Res) {\n    option idempotency_level = IDEMPOTENT; /*1*/\n  }\n  rpc Gains(Req) returns (Res) {\n    option idempotency_level = NO_SIDE_EFFECTS; /*2*/\n  }\n  rpc Loses(Req) returns (Res);\n  rpc Same(Req) returns (Res) {\n    option idempotency_level = IDEMPOTENT;\n  }\n}\n")),
+		vrE("RPC_SAME_IDEMPOTENCY_LEVEL", "a.proto", "/*1*/", "Changes", "NO_SIDE_EFFECTS", "IDEMPOTENT"),
+		vrE("RPC_SAME_IDEMPOTENCY_LEVEL", "a.proto", "/*2*/", "Gains", "IDEMPOTENCY_UNKNOWN", "NO_SIDE_EFFECTS"),
+		vrE("RPC_SAME_IDEMPOTENCY_LEVEL", "a.proto", "", "Loses", "IDEMPOTENT", "IDEMPOTENCY_UNKNOWN"))
+	c.add("rpc-second-file-and-moved-service", rules,
+		map[string]string{"a.proto": vrP3(msgs + "service Moved {\n  rpc A(Req) returns (Res);\n  rpc B(Req) returns (Res);\n}\n"),
+			"svc/b.proto": vrP3("import \"a.proto\";\nservice InB {\n  rpc X(Req) returns (Res);\n  rpc Y(Req) returns (Res);\n}\n")},
+		map[string]string{"a.proto": vrP3(msgs),
+			"svc/b.proto": vrP3("import \"a.proto\";\nservice InB { /*1*/\n  rpc X(Req) returns (stream Res); /*2*/\n}\nservice Moved { /*3*/\n  rpc A(Req2) returns (Res); /*4*/\n}\n")},
+		vrE("RPC_NO_DELETE", "svc/b.proto", "/*1*/", "\"Y\"", "InB"), vrE("RPC_SAME_SERVER_STREAMING", "svc/b.proto", "/*2*/", "\"X\"", "InB"),
+		vrE("RPC_NO_DELETE", "svc/b.proto", "/*3*/", "\"B\"", "Moved"), vrE("RPC_SAME_REQUEST_TYPE", "svc/b.proto", "/*4*/", "\"A\"", "Moved"))
+}
+
+// --- file level: syntax, package, options ------------------------------------------------------------------
+
+func vrCatFileOptions(c *vrCat) {
+	// FILE_SAME_SYNTAX: a missing syntax line means proto2
+	c.add("file-syntax", []string{"FILE_SAME_SYNTAX"},
+		map[string]string{
+			"to3.proto":      "syntax = \"proto2\";\npackage p;\nmessage To3 {}\n",
+			"to2.proto":      "syntax = \"proto3\";\npackage p;\nmessage To2 {}\n",
+			"toed.proto":     "syntax = \"proto3\";\npackage p;\nmessage ToEd {}\n",
+			"none3.proto":    "package p;\nmessage None3 {}\n",
+			"drop3.proto":    "syntax = \"proto3\";\npackage p;\nmessage Drop3 {}\n",
+			"none2.proto":    "package p;\nmessage None2 {}\n",
+			"drop2.proto":    "syntax = \"proto2\";\npackage p;\nmessage Drop2 {}\n",
+			"nonenone.proto": "package p;\nmessage NoneNone { optional int32 a = 1; }\n",
+			"same3.proto":    "syntax = \"proto3\";\npackage p;\nmessage Same3 {}\n",
+		},
+		map[string]string{
+			"to3.proto":      "// header\nsyntax = \"proto3\"; /*1*/\npackage p;\nmessage To3 {}\n",
+			"to2.proto":      "syntax = \"proto2\"; /*2*/\npackage p;\nmessage To2 {}\n",
+			"toed.proto":     "edition = \"2023\"; /*3*/\npackage p;\nmessage ToEd {}\n",
+			"none3.proto":    "// header\n\nsyntax = \"proto3\"; /*4*/\npackage p;\nmessage None3 {}\n",
+			"drop3.proto":    "package p;\nmessage Drop3 {}\n",
+			"none2.proto":    "syntax = \"proto2\";\npackage p;\nmessage None2 {}\n",
+			"drop2.proto":    "package p;\nmessage Drop2 {}\n",
+			"nonenone.proto": "package p;\nmessage NoneNone { optional int32 a = 1; }\n",
+			"same3.proto":    "syntax = \"proto3\";\npackage p;\nmessage Same3 {}\nmessage Fresh {}\n",
+		},
+		vrE("FILE_SAME_SYNTAX", "to3.proto", "/*1*/", "proto2", "proto3"), vrE("FILE_SAME_SYNTAX", "to2.proto", "/*2*/", "proto3", "proto2"),
+		vrE("FILE_SAME_SYNTAX", "toed.proto", "/*3*/", "proto3", "editions"), vrE("FILE_SAME_SYNTAX", "none3.proto", "/*4*/", "proto2", "proto3"),
+		vrE("FILE_SAME_SYNTAX", "drop3.proto", "", "proto3", "proto2"))
+
+	c.add("file-package", []string{"FILE_SAME_PACKAGE"},
+		map[string]string{"a.proto": "syntax = \"proto3\";\npackage p;\nmessage A {}\n", "b.proto": "syntax = \"proto3\";\npackage p;\nmessage B {}\n",
+			"sub/c.proto": "syntax = \"proto3\";\npackage p.sub;\nmessage C {}\n", "d.proto": "syntax = \"proto3\";\npackage p;\nmessage D {}\n", "e.proto": "syntax = \"proto3\";\nmessage E {}\n"},
+		map[string]string{"a.proto": "syntax = \"proto3\";\n\npackage p.v2; /*1*/\nmessage A {}\n", "b.proto": "syntax = \"proto3\";\npackage p;\nmessage B {}\n",
+			"sub/c.proto": "syntax = \"proto3\";\npackage p.subs; /*2*/\nmessage C {}\n", "d.proto": "syntax = \"proto3\";\nmessage D {}\n", "e.proto": "syntax = \"proto3\";\npackage p; /*3*/\nmessage E {}\n"},
+		vrE("FILE_SAME_PACKAGE", "a.proto", "/*1*/", "\"p\"", "\"p.v2\""), vrE("FILE_SAME_PACKAGE", "sub/c.proto", "/*2*/", "\"p.sub\"", "\"p.subs\""),
+		vrE("FILE_SAME_PACKAGE", "d.proto", "", "\"p\"", "\"\""), vrE("FILE_SAME_PACKAGE", "e.proto", "/*3*/", "\"\"", "\"p\""))
+
+	// FILE_SAME_<option>: one pair per option; files chg (A -> B), add (absent -> B), del (A -> absent), same (A -> A),
+	// dflt (absent -> documented default written out: not a change of value)
+	type opt struct{ rule, name, a, b, dflt string }
+	str := func(rule, name string) opt { return opt{rule, name, "\"one.A\"", "\"two.B\"", ""} }
+	opts := []opt{
+		str("FILE_SAME_CSHARP_NAMESPACE", "csharp_namespace"), str("FILE_SAME_GO_PACKAGE", "go_package"),
+		str("FILE_SAME_JAVA_OUTER_CLASSNAME", "java_outer_classname"), str("FILE_SAME_JAVA_PACKAGE", "java_package"),
+		str("FILE_SAME_OBJC_CLASS_PREFIX", "objc_class_prefix"), str("FILE_SAME_PHP_CLASS_PREFIX", "php_class_prefix"),
+		str("FILE_SAME_PHP_METADATA_NAMESPACE", "php_metadata_namespace"), str("FILE_SAME_PHP_NAMESPACE", "php_namespace"),
+		str("FILE_SAME_RUBY_PACKAGE", "ruby_package"), str("FILE_SAME_SWIFT_PREFIX", "swift_prefix"),
+		{"FILE_SAME_OPTIMIZE_FOR", "optimize_for", "CODE_SIZE", "LITE_RUNTIME", "SPEED"},
+		// booleans: a = documented default, b = the other value
+		{"FILE_SAME_CC_ENABLE_ARENAS", "cc_enable_arenas", "true", "false", "true"},
+		{"FILE_SAME_CC_GENERIC_SERVICES", "cc_generic_services", "false", "true", "false"},
+		{"FILE_SAME_JAVA_GENERIC_SERVICES", "java_generic_services", "false", "true", "false"},
+		{"FILE_SAME_JAVA_MULTIPLE_FILES", "java_multiple_files", "false", "true", "false"},
+		{"FILE_SAME_PY_GENERIC_SERVICES", "py_generic_services", "false", "true", "false"},
+	}
+	for _, o := range opts {
+		file := func(msg, value string) string {
+			s := "syntax = \"proto3\";\npackage p;\n"
+			if value != "" {
+				s += "option " + o.name + " = " + value + "; /*o*/\n"
+			}
+			return s + "message " + msg + " {}\n"
+		}
+		unq := func(s string) string { return strings.Trim(s, "\"") }
+		prev := map[string]string{"chg.proto": file("Chg", o.a), "add.proto": file("Add", ""), "del.proto": file("Del", o.b), "same.proto": file("Same", o.b), "rev.proto": file("Rev", o.b)}
+		cur := map[string]string{"chg.proto": file("Chg", o.b), "add.proto": "// leading comment\n\n" + file("Add", o.b), "del.proto": file("Del", ""), "same.proto": file("Same", o.b) + "message Fresh {}\n", "rev.proto": file("Rev", o.a)}
+		exp := []vrExp{
+			vrE(o.rule, "chg.proto", "/*o*/", o.name, unq(o.a), unq(o.b)),
+			vrE(o.rule, "add.proto", "/*o*/", o.name, unq(o.b)),
+			vrE(o.rule, "del.proto", "", o.name, unq(o.b)),
+			vrE(o.rule, "rev.proto", "/*o*/", o.name, unq(o.b), unq(o.a)),
+		}
+		if o.dflt != "" {
+			prev["dflt.proto"] = file("Dflt", "")
+			cur["dflt.proto"] = file("Dflt", o.dflt)
+			prev["undflt.proto"] = file("Undflt", o.dflt)
+			cur["undflt.proto"] = file("Undflt", "")
+		}
+		c.add("file-option/"+o.name, []string{o.rule}, prev, cur, exp...)
+	}
+	// all options at once in one file, next to unrelated additive edits
+	var all strings.Builder
+	var allPrev strings.Builder
+	var exp []vrExp
+	var rules []string
+	all.WriteString("syntax = \"proto3\";\npackage p;\n")
+	allPrev.WriteString("syntax = \"proto3\";\npackage p;\n")
+	for i, o := range opts {
+		mark := fmt.Sprintf("/*o%d*/", i)
+		fmt.Fprintf(&allPrev, "option %s = %s;\n", o.name, o.a)
+		fmt.Fprintf(&all, "option %s = %s; %s\n", o.name, o.b, mark)
+		exp = append(exp, vrE(o.rule, "all.proto", mark, o.name))
+		rules = append(rules, o.rule)
+	}
+	allPrev.WriteString("message M { int32 a = 1; }\n")
+	all.WriteString("message M { int32 a = 1; int32 b = 2; }\nenum Fresh { FRESH_ZERO = 0; }\n")
+	c.add("file-option/all-in-one-file", rules, map[string]string{"all.proto": allPrev.String(), "other.proto": vrP3("message Other {}\n")},
+		map[string]string{"all.proto": all.String(), "other.proto": vrP3("message Other {}\n")}, exp...)
+}
+
+// --- reserved ranges / names and extension ranges -------------------------------------------------------------
+
+func vrCatReserved(c *vrCat) {
+	c.add("reserved-message", []string{"RESERVED_MESSAGE_NO_DELETE"},
+		vrOne(vrP3("message RangeGone {\n  reserved 5 to 10;\n  int32 a = 1;\n}\nmessage NameGone {\n  reserved \"old\", \"older\";\n}\nmessage Narrowed {\n  reserved 5 to 10;\n}\nmessage Widened {\n  reserved 5 to 10;\n  reserved \"x\";\n}\nmessage Split {\n  reserved 5 to 10;\n}\nmessage Merged {\n  reserved 5 to 7, 8 to 10;\n}\nmessage SingleGone {\n  reserved 3, 4;\n}\nmessage O {\n  message Nested {\n    reserved 2;\n    reserved \"n\";\n  }\n}\nmessage Hole {\n  reserved 5 to 10;\n}\n")),
+		vrOne(vrP3("message RangeGone { /*1*/\n  int32 a = 1;\n}\nmessage NameGone { /*2*/\n  reserved \"older\";\n}\nmessage Narrowed { /*3*/\n  reserved 5 to 9;\n}\nmessage Widened {\n  reserved 4 to 11;\n  reserved \"x\", \"y\";\n}\nmessage Split {\n  reserved 5 to 7, 8 to 10;\n}\nmessage Merged {\n  reserved 5 to 10;\n}\nmessage SingleGone { /*4*/\n  reserved 3;\n}\nmessage O {\n  message Nested { /*5*/\n  }\n}\nmessage Hole { /*6*/\n  reserved 5 to 6, 8 to 10;\n}\n")),
+		vrE("RESERVED_MESSAGE_NO_DELETE", "a.proto", "/*1*/", "RangeGone", "[5,10]"), vrE("RESERVED_MESSAGE_NO_DELETE", "a.proto", "/*2*/", "NameGone", "\"old\""),
+		vrE("RESERVED_MESSAGE_NO_DELETE", "a.proto", "/*3*/", "Narrowed", "[10]"), vrE("RESERVED_MESSAGE_NO_DELETE", "a.proto", "/*4*/", "SingleGone", "[4]"),
+		vrE("RESERVED_MESSAGE_NO_DELETE", "a.proto", "/*5*/", "Nested", "[2]"), vrE("RESERVED_MESSAGE_NO_DELETE", "a.proto", "/*5*/", "Nested", "\"n\""),
+		vrE("RESERVED_MESSAGE_NO_DELETE", "a.proto", "/*6*/", "Hole", "[7]"))
+	c.add("reserved-enum", []string{"RESERVED_ENUM_NO_DELETE"},
+		vrOne(vrP3("enum RangeGone {\n  reserved 5 to 10;\n  RANGE_GONE_ZERO = 0;\n}\nenum NameGone {\n  reserved \"OLD\", \"OLDER\";\n  NAME_GONE_ZERO = 0;\n}\nenum Narrowed {\n  reserved 5 to 10;\n  NARROWED_ZERO = 0;\n}\nenum Widened {\n  reserved 5 to 10;\n  WIDENED_ZERO = 0;\n}\nenum Merged {\n  reserved 5 to 7, 8 to 10;\n  MERGED_ZERO = 0;\n}\nmessage O {\n  enum Nested {\n    reserved 2, -4 to -2;\n    NESTED_ZERO = 0;\n  }\n}\nenum ToMax {\n  reserved 100 to max;\n  TO_MAX_ZERO = 0;\n}\n")),
+		vrOne(vrP3("enum RangeGone { /*1*/\n  RANGE_GONE_ZERO = 0;\n}\nenum NameGone { /*2*/\n  reserved \"OLDER\";\n  NAME_GONE_ZERO = 0;\n}\nenum Narrowed { /*3*/\n  reserved 6 to 10;\n  NARROWED_ZERO = 0;\n}\nenum Widened {\n  reserved 4 to 11;\n  reserved \"W\";\n  WIDENED_ZERO = 0;\n  WIDENED_ONE = 1;\n}\nenum Merged {\n  reserved 5 to 10;\n  MERGED_ZERO = 0;\n}\nmessage O {\n  enum Nested { /*4*/\n    reserved 2, -4 to -3;\n    NESTED_ZERO = 0;\n  }\n}\nenum ToMax { /*5*/\n  reserved 100 to 1000;\n  TO_MAX_ZERO = 0;\n}\n")),
+		vrE("RESERVED_ENUM_NO_DELETE", "a.proto", "/*1*/", "RangeGone", "[5,10]"), vrE("RESERVED_ENUM_NO_DELETE", "a.proto", "/*2*/", "NameGone", "\"OLD\""),
+		vrE("RESERVED_ENUM_NO_DELETE", "a.proto", "/*3*/", "Narrowed", "[5]"), vrE("RESERVED_ENUM_NO_DELETE", "a.proto", "/*4*/", "Nested", "[-2]"),
+		vrE("RESERVED_ENUM_NO_DELETE", "a.proto", "/*5*/", "ToMax", "[1001,max]"))
+	c.add("extension-ranges", []string{"EXTENSION_MESSAGE_NO_DELETE"},
+		vrOne(vrP2("message Gone {\n  extensions 100 to 200;\n}\nmessage Narrowed {\n  extensions 100 to 200;\n}\nmessage Widened {\n  extensions 100 to 200;\n}\nmessage Split {\n  extensions 100 to 200;\n}\nmessage OneOfTwo {\n  extensions 100 to 110, 120 to 130;\n}\nmessage O {\n  message Nested {\n    extensions 1000 to max;\n  }\n}\n")),
+		vrOne(vrP2("message Gone { /*1*/\n  optional int32 fresh = 1;\n}\nmessage Narrowed { /*2*/\n  extensions 101 to 200;\n}\nmessage Widened {\n  extensions 50 to 300;\n}\nmessage Split {\n  extensions 100 to 150, 151 to 200;\n}\nmessage OneOfTwo { /*3*/\n  extensions 100 to 110;\n}\nmessage O {\n  message Nested { /*4*/\n    extensions 1000 to 2000;\n  }\n}\n")),
+		vrE("EXTENSION_MESSAGE_NO_DELETE", "a.proto", "/*1*/", "Gone", "[100,200]"), vrE("EXTENSION_MESSAGE_NO_DELETE", "a.proto", "/*2*/", "Narrowed", "[100]"),
+		vrE("EXTENSION_MESSAGE_NO_DELETE", "a.proto", "/*3*/", "OneOfTwo", "[120,130]"), vrE("EXTENSION_MESSAGE_NO_DELETE", "a.proto", "/*4*/", "Nested", "[2001,max]"))
+	c.add("reserved-second-file", []string{"RESERVED_MESSAGE_NO_DELETE", "RESERVED_ENUM_NO_DELETE"},
+		map[string]string{"a.proto": vrP3("message A {}\n"), "b.proto": vrP3("message InB {\n  reserved 7;\n}\nenum EnB {\n  reserved 7;\n  EN_B_ZERO = 0;\n}\n")},
+		map[string]string{"a.proto": vrP3("message A {}\n"), "b.proto": vrP3("message InB { /*1*/\n  reserved 8;\n}\nenum EnB { /*2*/\n  reserved 8;\n  EN_B_ZERO = 0;\n}\n")},
+		vrE("RESERVED_MESSAGE_NO_DELETE", "b.proto", "/*1*/", "InB", "[7]"), vrE("RESERVED_ENUM_NO_DELETE", "b.proto", "/*2*/", "EnB", "[7]"))
+}
+
+// --- C04: identical, cosmetic and additive-only pairs --------------------------------------------------------
+
+func vrCatCompatible(c *vrCat) {
+	const rich3 = `syntax = "proto3";
+package acme.shop.v1;
+option go_package = "example.com/acme/shop/v1;shopv1";
+option java_multiple_files = true;
+option java_package = "com.acme.shop.v1";
+option optimize_for = CODE_SIZE;
+enum Status {
+  option allow_alias = true;
+  reserved 7, 20 to 29;
+  reserved "STATUS_LEGACY";
+  STATUS_UNSPECIFIED = 0;
+  STATUS_OPEN = 1;
+  STATUS_ACTIVE = 1;
+  STATUS_CLOSED = 2;
+}
+message Order {
+  reserved 9, 100 to 199;
+  reserved "legacy_id";
+  message Line {
+    string sku = 1;
+    uint32 quantity = 2 [json_name = "qty"];
+    enum Unit { UNIT_UNSPECIFIED = 0; UNIT_PIECE = 1; }
+    Unit unit = 3;
+  }
+  string id = 1;
+  repeated Line lines = 2;
+  map<string, string> labels = 3;
+  oneof payment {
+    string card_token = 4;
+    int64 invoice_number = 5 [jstype = JS_STRING];
+  }
+  optional int32 priority = 6;
+  Status status = 7;
+  bytes blob = 8 [ctype = CORD];
+}
+message ListOrdersRequest { int32 page_size = 1; }
+message ListOrdersResponse { repeated Order orders = 1; }
+service OrderService {
+  rpc ListOrders(ListOrdersRequest) returns (ListOrdersResponse) { option idempotency_level = NO_SIDE_EFFECTS; }
+  rpc WatchOrders(ListOrdersRequest) returns (stream Order);
+  rpc Upload(stream Order) returns (ListOrdersResponse);
+}
+`
+	const rich2 = `syntax = "proto2";
+package acme.legacy;
+option java_string_check_utf8 = true;
+option cc_enable_arenas = false;
+message Record {
+  required int64 id = 1;
+  optional string name = 2 [default = "none"];
+  optional Kind kind = 3 [default = KIND_B];
+  repeated int32 values = 4 [packed = true];
+  optional group Extra = 5 {
+    optional int32 depth = 1;
+  }
+  extensions 100 to 199;
+  extensions 1000 to max;
+  reserved 50 to 59;
+  reserved "old";
+  oneof source { string file = 6; string url = 7; }
+  message Inner { option no_standard_descriptor_accessor = true; optional double d = 1 [default = 2.5]; }
+}
+enum Kind { KIND_A = 1; KIND_B = 2; reserved 10 to max; }
+extend Record { optional string note = 100; repeated Record children = 101; }
+message Holder { extend Record { optional Holder holder = 102; } }
+service Legacy { rpc Get(Record) returns (Record); }
+`
+	const legacyNoSyntax = "package acme.old;\nmessage Old {\n  optional int32 a = 1;\n  required string b = 2;\n}\nenum OldE { OLD_E_A = 1; }\n"
+	const editions = `edition = "2023";
+package acme.ed;
+option features.field_presence = IMPLICIT;
+message Ed {
+  string a = 1 [features.utf8_validation = NONE];
+  int32 b = 2 [features.field_presence = EXPLICIT];
+  Sub sub = 3 [features.message_encoding = DELIMITED];
+  message Sub { option features.json_format = LEGACY_BEST_EFFORT; int32 x = 1; }
+  repeated int32 r = 4 [features.repeated_field_encoding = EXPANDED];
+}
+enum EdE { option features.enum_type = CLOSED; ED_E_ONE = 1; }
+`
+	all := map[string]string{"shop/v1/order.proto": rich3, "legacy/record.proto": rich2, "old/old.proto": legacyNoSyntax, "ed/ed.proto": editions}
+	c.addClean("compatible/identical-multi-file", all, all)
+	c.addClean("compatible/identical-no-syntax-line", map[string]string{"old.proto": legacyNoSyntax, "x.proto": "message NoPackageNoSyntax { optional int32 a = 1; }\n"},
+		map[string]string{"old.proto": legacyNoSyntax, "x.proto": "message NoPackageNoSyntax { optional int32 a = 1; }\n"})
+	c.addClean("compatible/explicit-proto2-vs-no-syntax-line",
+		map[string]string{"gains.proto": legacyNoSyntax, "loses.proto": "syntax = \"proto2\";\npackage acme.old2;\nmessage Old2 { optional int32 a = 1; }\n"},
+		map[string]string{"gains.proto": "syntax = \"proto2\";\n" + legacyNoSyntax, "loses.proto": "// no syntax line any more\npackage acme.old2;\nmessage Old2 { optional int32 a = 1; }\n"})
+
+	// re-commented / reformatted copies
+	recomment := func(src string) string {
+		var b strings.Builder
+		b.WriteString("// Copyright, licence header.\n\n")
+		for _, l := range strings.Split(src, "\n") {
+			t := strings.TrimSpace(l)
+			if t == "" {
+				continue
+			}
+			switch {
+			case strings.HasPrefix(t, "message "), strings.HasPrefix(t, "enum "), strings.HasPrefix(t, "service "):
+				b.WriteString("\n// Documentation for: " + strings.TrimSuffix(t, "{") + "\n")
+			case strings.HasPrefix(t, "rpc "):
+				b.WriteString("    /* an rpc */\n")
+			}
+			b.WriteString("\t\t" + t + " // trailing\n")
+		}
+		return b.String()
+	}
+	c.addClean("compatible/recommented-reindented",
+		all, map[string]string{"shop/v1/order.proto": recomment(rich3), "legacy/record.proto": recomment(rich2), "old/old.proto": recomment(legacyNoSyntax), "ed/ed.proto": recomment(editions)})
+	c.addClean("compatible/reordered-declarations",
+		vrOne(vrP3("message A {\n  int32 x = 1;\n  string y = 2;\n  oneof o { int32 p = 3; int32 q = 4; }\n}\nenum E { E_ZERO = 0; E_ONE = 1; E_TWO = 2; }\nmessage B { reserved 1 to 3, 7; reserved \"a\", \"b\"; }\nservice S { rpc One(A) returns (B); rpc Two(A) returns (B); }\n")),
+		vrOne(vrP3("service S { rpc Two(A) returns (B); rpc One(A) returns (B); }\nmessage B { reserved \"b\"; reserved 7; reserved \"a\"; reserved 1 to 3; }\nenum E { E_ZERO = 0 ;\n E_TWO = 2; E_ONE = 1; }\nmessage A {\n  oneof o { int32 q = 4; int32 p = 3; }\n  string y = 2;\n\n\n  int32 x = 1;\n}\n")))
+
+	// additive-only pairs
+	base := map[string]string{"shop/v1/order.proto": rich3, "legacy/record.proto": rich2}
+	with := func(path, from, to string) map[string]string {
+		out := map[string]string{}
+		for p, s := range base {
+			out[p] = s
+		}
+		if !strings.Contains(out[path], from) {
+			panic("vrCatCompatible: " + from + " not in " + path)
+		}
+		out[path] = strings.Replace(out[path], from, to, 1)
+		return out
+	}
+	order, record := "shop/v1/order.proto", "legacy/record.proto"
+	c.addClean("additive/new-file", base, map[string]string{order: rich3, record: rich2,
+		"shop/v1/extra.proto": "syntax = \"proto3\";\npackage acme.shop.v1;\nimport \"shop/v1/order.proto\";\nmessage Extra { Order order = 1; }\nenum ExtraE { EXTRA_E_UNSPECIFIED = 0; }\nservice ExtraService { rpc Do(Extra) returns (Extra); }\n",
+		"brand/new.proto":     "syntax = \"proto3\";\npackage brand.new_pkg;\nmessage N {}\n"})
+	c.addClean("additive/new-message", base, with(order, "message ListOrdersRequest", "message Fresh { string a = 1; message Deep { int32 b = 1; } }\nmessage ListOrdersRequest"))
+	c.addClean("additive/new-nested-message-and-enum", base, with(order, "  string id = 1;", "  message Address { string street = 1; }\n  enum Channel { CHANNEL_UNSPECIFIED = 0; CHANNEL_WEB = 1; }\n  string id = 1;"))
+	c.addClean("additive/new-enum", base, with(order, "message Order {", "enum Fresh { FRESH_UNSPECIFIED = 0; FRESH_ONE = 1; }\nmessage Order {"))
+	c.addClean("additive/new-service", base, with(order, "service OrderService {", "service AdminService { rpc Purge(ListOrdersRequest) returns (ListOrdersResponse); }\nservice OrderService {"))
+	c.addClean("additive/new-rpc", base, with(order, "  rpc Upload(", "  rpc Cancel(Order) returns (Order) { option idempotency_level = IDEMPOTENT; }\n  rpc Chat(stream Order) returns (stream Order);\n  rpc Upload("))
+	c.addClean("additive/new-oneof", base, with(order, "  optional int32 priority = 6;", "  optional int32 priority = 6;\n  oneof shipping { string pickup_point = 20; Line parcel = 21; }"))
+	c.addClean("additive/new-reserved-range-and-name", base, with(order, "  reserved \"legacy_id\";", "  reserved \"legacy_id\", \"another\";\n  reserved 300 to 400, 500;"))
+	c.addClean("additive/widened-reserved-range", base, with(order, "  reserved 9, 100 to 199;", "  reserved 9 to 10, 90 to 250;"))
+	c.addClean("additive/new-enum-reserved", base, with(order, "  reserved 7, 20 to 29;", "  reserved 7, 20 to 29, 40 to max;\n  reserved \"STATUS_OLD\";"))
+	c.addClean("additive/new-enum-value", base, with(order, "  STATUS_CLOSED = 2;", "  STATUS_CLOSED = 2;\n  STATUS_ARCHIVED = 3;\n  STATUS_NEGATIVE = -1;"))
+	c.addClean("additive/new-nested-enum-value", base, with(order, "UNIT_PIECE = 1;", "UNIT_PIECE = 1; UNIT_BOX = 2;"))
+	c.addClean("additive/new-fields-proto3", base, with(order, "  Status status = 7;", "  Status status = 7;\n  string note = 30;\n  optional string nick = 31;\n  repeated int64 tags = 32;\n  map<int32, Line> by_pos = 33;\n  Line main_line = 34;"))
+	c.addClean("additive/new-field-in-nested-message", base, with(order, "    string sku = 1;", "    string sku = 1;\n    double weight = 10;"))
+	c.addClean("additive/new-oneof-member", base, with(order, "    string card_token = 4;", "    string card_token = 4;\n    bool cash = 40;"))
+	c.addClean("additive/new-fields-proto2", base, with(record, "  repeated int32 values = 4 [packed = true];", "  repeated int32 values = 4 [packed = true];\n  optional int32 fresh = 20 [default = 4];\n  repeated string fresh_rep = 21;\n  optional group FreshGroup = 22 { optional int32 g = 1; }"))
+	c.addClean("additive/new-extension-range", base, with(record, "  extensions 100 to 199;", "  extensions 100 to 199, 300 to 399;"))
+	c.addClean("additive/new-extensions", base, with(record, "extend Record { optional string note = 100;", "extend Record { optional int32 fresh_ext = 110; }\nextend Record { optional string note = 100;"))
+	c.addClean("additive/new-nested-extension", base, with(record, "message Holder { extend Record { optional Holder holder = 102; }", "message Holder { extend Record { optional Holder holder = 102; optional int32 holder_fresh = 111; }"))
+	c.addClean("additive/new-file-options-absent-before", vrOne(vrP3("message M {}\n")), vrOne(vrP3("option java_generic_services = false;\noption cc_enable_arenas = true;\noption optimize_for = SPEED;\nmessage M {}\n")))
+	// everything together
+	everything := map[string]string{order: rich3, record: rich2}
+	for _, step := range [][3]string{
+		{order, "message ListOrdersRequest", "message Fresh { string a = 1; }\nenum FreshE { FRESH_E_UNSPECIFIED = 0; }\nmessage ListOrdersRequest"},
+		{order, "  STATUS_CLOSED = 2;", "  STATUS_CLOSED = 2;\n  STATUS_ARCHIVED = 3;"},
+		{order, "  Status status = 7;", "  Status status = 7;\n  string note = 30;\n  oneof fresh_oneof { int32 fo = 35; }"},
+		{order, "  rpc Upload(", "  rpc Cancel(Order) returns (Order);\n  rpc Upload("},
+		{order, "  reserved \"legacy_id\";", "  reserved \"legacy_id\";\n  reserved 300 to 400;"},
+		{record, "  extensions 100 to 199;", "  extensions 100 to 199, 300 to 399;\n  optional int32 fresh = 20;"},
+	} {
+		if !strings.Contains(everything[step[0]], step[1]) {
+			panic("vrCatCompatible: " + step[1])
+		}
+		everything[step[0]] = strings.Replace(everything[step[0]], step[1], step[2], 1)
+	}
+	everything["shop/v1/extra.proto"] = "syntax = \"proto3\";\npackage acme.shop.v1;\nservice ExtraService {}\n"
+	c.addClean("additive/everything-together", base, everything)
 }
